@@ -1,6 +1,16 @@
 (* FifoProofs.v — C04: every test report produced in a worker reaches the controller's
-   reporting hook exactly once, in the order the worker produced it, tagged with that worker.
-   System-level invariant over Model/System.v, for every configuration and every schedule. *)
+   reporting hook at most once, in the order the worker produced it, tagged with that worker;
+   and exactly once unless the worker was written off for an undecodable message.
+   System-level invariant over Model/System.v, for every configuration and every schedule.
+
+   The receiver thread stops listening to a worker at the first "cut" message on its wire: an
+   undecodable message (UBad: the worker is written off), workerfinished, or the channel end
+   marker; whatever follows is dropped. The invariant (fifo_invariant) therefore reads
+     reports produced before the worker's first cut event
+       = forwarded ++ waiting in the controller's queue ++ waiting on the wire AND still heard.
+   workerfinished is the last event of a worker (fifo_audible_decodable), so the left-hand side is
+   the list of reports produced before the first garbled one. For a worker that sent no garbled
+   report the old, full equation holds (fifo_invariant_not_written_off). *)
 From XV Require Import Base Worker Ctl SchedLoad SchedSteal SchedScope SchedEach Sched DSession System
   NoHook DSessionProofs.
 Open Scope nat_scope.
@@ -72,13 +82,34 @@ Section AssocFacts.
   Qed.
 End AssocFacts.
 
+(* the "down signature" of a node table: which ids exist and which of them are down *)
+Definition nsig (m : ntable) : list (nat * bool) := map (fun p => (fst p, n_down (snd p))) m.
+
+Lemma akeys_nsig m : akeys m = map fst (nsig m).
+Proof. unfold akeys, nsig. rewrite map_map. reflexivity. Qed.
+
+Lemma aget_nsig k m : aget k (nsig m) = option_map n_down (aget k m).
+Proof.
+  induction m as [|[k' v'] r IH]; cbn; [reflexivity|].
+  destruct (Nat.eqb k k'); [reflexivity|exact IH].
+Qed.
+
+Lemma nsig_aset_same k v m b :
+  aget k (nsig m) = Some b -> n_down v = b -> nsig (aset k v m) = nsig m.
+Proof.
+  induction m as [|[k' v'] r IH]; cbn; [discriminate|].
+  destruct (Nat.eqb k k') eqn:E; cbn.
+  - intros H1 H2. injection H1 as H1. unfold nsig. cbn. rewrite H2, H1. reflexivity.
+  - intros H1 H2. unfold nsig in *. cbn. rewrite (IH H1 H2). reflexivity.
+Qed.
+
 (* ====================================================================================== *)
 (* Part A: no scheduler operation ever removes a WorkerController from the node table      *)
 (* ====================================================================================== *)
 Section KeyLogic.
-  Context {S : Type} (key : S -> list nat).
+  Context {S K : Type} (key : S -> K).
 
-  (* running m from s0 leaves the key list unchanged *)
+  (* running m from s0 leaves the key (here: the down signature of the node table) unchanged *)
   Definition kfrom {A} (s0 : S) (m : M S A) : Prop :=
     forall s' o r, m s0 = (s', o, r) -> key s' = key s0.
   Definition kspec {A} (m : M S A) : Prop := forall s0, kfrom s0 m.
@@ -127,7 +158,7 @@ End KeyLogic.
 Section KeyNodes.
   Context {S : Type} (nt_of : S -> ntable) (set_nt : S -> ntable -> S).
   Hypothesis nt_set : forall s v, nt_of (set_nt s v) = v.
-  Let key (s : S) : list nat := akeys (nt_of s).
+  Let key (s : S) : list (nat * bool) := nsig (nt_of s).
 
   Lemma k_node_flags n : kspec key (node_flags nt_of n).
   Proof. intros s0. unfold node_flags. apply kf_get. apply kf_of_opt. Qed.
@@ -151,14 +182,14 @@ Section KeyNodes.
     2:{ apply (k_node_send n _ _ _ _ _ H3). }
     pose proof (k_node_send n _ _ _ _ _ H3) as K2.
     unfold mbind, get, put in H4. inversion H4; subst. unfold key in *. rewrite nt_set.
-    rewrite akeys_aset_in; [exact K2|]. rewrite K2. eapply aget_some_in; eauto.
+    rewrite (nsig_aset_same n _ _ (n_down f)); [exact K2|rewrite K2, aget_nsig, Ef; reflexivity|reflexivity].
   Qed.
 End KeyNodes.
 
-Definition lkey (s : lstate) : list nat := akeys (l_nt s).
-Definition wkey (s : wsstate) : list nat := akeys (ws_nt s).
-Definition ckey (s : scstate) : list nat := akeys (sc_nt s).
-Definition ekey (s : estate) : list nat := akeys (e_nt s).
+Definition lkey (s : lstate) : list (nat * bool) := nsig (l_nt s).
+Definition wkey (s : wsstate) : list (nat * bool) := nsig (ws_nt s).
+Definition ckey (s : scstate) : list (nat * bool) := nsig (sc_nt s).
+Definition ekey (s : estate) : list (nat * bool) := nsig (e_nt s).
 
 Lemma lk_shutdown n : kspec lkey (node_shutdown l_nt l_set_nt n).
 Proof. apply (k_node_shutdown l_nt l_set_nt). reflexivity. Qed.
@@ -348,12 +379,17 @@ Lemma ek_schedule : kspec ekey e_schedule.
 Proof. intros s0. unfold e_schedule. ks. Qed.
 #[export] Hint Resolve ek_schedule : kdb.
 
-(* ---- the scheduler interface: the node table only grows ---- *)
+(* ---- the scheduler interface: the node table only grows, and no scheduler operation
+        touches a down flag ---- *)
 Definition skey (st : sstate) : list nat := akeys (s_nt st).
+Definition ssig (st : sstate) : list (nat * bool) := nsig (s_nt st).
 
-Lemma lift_keys {S A B} (key : S -> list nat) (wrap : S -> sstate) (f : A -> B) (m : M S A) s st' o r :
-  (forall x, skey (wrap x) = key x) ->
-  kspec key m -> lift wrap f (m s) = (st', o, r) -> skey st' = skey (wrap s).
+Lemma skey_ssig st : skey st = map fst (ssig st).
+Proof. apply akeys_nsig. Qed.
+
+Lemma lift_keys {S A B} (key : S -> list (nat * bool)) (wrap : S -> sstate) (f : A -> B) (m : M S A) s st' o r :
+  (forall x, ssig (wrap x) = key x) ->
+  kspec key m -> lift wrap f (m s) = (st', o, r) -> ssig st' = ssig (wrap s).
 Proof.
   intros Hw Hm H. unfold lift in H. destruct (m s) as [[s1 o1] r1] eqn:E.
   inversion H; subst. rewrite !Hw. exact (Hm _ _ _ _ E).
@@ -362,38 +398,71 @@ Qed.
 Lemma s_nt_set st v : s_nt (s_set_nt st v) = v.
 Proof. destruct st; reflexivity. Qed.
 
+(* the operations DSession performs on a scheduler, except the creation of a WorkerController *)
+Definition plain_op (op : sop) : bool :=
+  match op with SNew _ _ | SFlags _ _ _ => false | _ => true end.
+
+Theorem s_step_sig st op st' o r :
+  plain_op op = true -> s_step st op = (st', o, r) -> ssig st' = ssig st.
+Proof.
+  destruct op; cbn [s_step plain_op]; intros Hp H; try discriminate.
+  - destruct st; (eapply lift_keys; [|..|exact H]; [reflexivity|]); eauto with kdb.
+  - destruct st; (eapply lift_keys; [|..|exact H]; [reflexivity|]); eauto with kdb.
+  - destruct st; (eapply lift_keys; [|..|exact H]; [reflexivity|]); eauto with kdb.
+  - destruct st; (eapply lift_keys; [|..|exact H]; [reflexivity|]); eauto with kdb.
+  - destruct st; try (inversion H; reflexivity); (eapply lift_keys; [|..|exact H]; [reflexivity|]); eauto with kdb.
+  - destruct st; try (inversion H; reflexivity); (eapply lift_keys; [|..|exact H]; [reflexivity|]); eauto with kdb.
+  - destruct st; (eapply lift_keys; [|..|exact H]; [reflexivity|]); eauto with kdb.
+  - destruct st; (eapply lift_keys; [|..|exact H]; [reflexivity|]); eauto with kdb.
+Qed.
+
 Theorem s_step_keys st op st' o r :
   s_step st op = (st', o, r) -> forall k, In k (skey st) -> In k (skey st').
 Proof.
-  assert (EQ : skey st' = skey st -> forall k, In k (skey st) -> In k (skey st')).
-  { intros E k Hk. rewrite E. exact Hk. }
-  destruct op; cbn [s_step]; intros H.
-  - inversion H; subst. intros k Hk. unfold skey. rewrite s_nt_set. apply akeys_aset_incl. exact Hk.
-  - apply EQ. destruct st; (eapply lift_keys; [|..|exact H]; [reflexivity|]); eauto with kdb.
-  - apply EQ. destruct st; (eapply lift_keys; [|..|exact H]; [reflexivity|]); eauto with kdb.
-  - apply EQ. destruct st; (eapply lift_keys; [|..|exact H]; [reflexivity|]); eauto with kdb.
-  - apply EQ. destruct st; (eapply lift_keys; [|..|exact H]; [reflexivity|]); eauto with kdb.
-  - apply EQ. destruct st; try (inversion H; reflexivity); (eapply lift_keys; [|..|exact H]; [reflexivity|]); eauto with kdb.
-  - apply EQ. destruct st; try (inversion H; reflexivity); (eapply lift_keys; [|..|exact H]; [reflexivity|]); eauto with kdb.
-  - apply EQ. destruct st; (eapply lift_keys; [|..|exact H]; [reflexivity|]); eauto with kdb.
-  - destruct (aget n (s_nt st)) eqn:E; inversion H; subst; [|auto].
-    intros k Hk. unfold skey. rewrite s_nt_set. apply akeys_aset_incl. exact Hk.
-  - apply EQ. destruct st; (eapply lift_keys; [|..|exact H]; [reflexivity|]); eauto with kdb.
+  destruct (plain_op op) eqn:Ep.
+  - intros H k Hk. rewrite skey_ssig in *. rewrite (s_step_sig _ _ _ _ _ Ep H). exact Hk.
+  - destruct op; try discriminate; cbn [s_step]; intros H.
+    + inversion H; subst. intros k Hk. unfold skey. rewrite s_nt_set. apply akeys_aset_incl. exact Hk.
+    + destruct (aget n (s_nt st)) eqn:E; inversion H; subst; [|auto].
+      intros k Hk. unfold skey. rewrite s_nt_set. apply akeys_aset_incl. exact Hk.
 Qed.
 
 (* ====================================================================================== *)
 (* Part B: what the controller's handlers do to the node table and which reports they emit *)
 (* ====================================================================================== *)
 Definition dkeys (d : dstate) : list nat := akeys (d_nt d).
+Definition dsig (d : dstate) : list (nat * bool) := nsig (d_nt d).
+
+(* the receiver thread has written worker q off (or has seen it finish / its channel end) *)
+Definition dn (q : nat) (d : dstate) : bool :=
+  match aget q (d_nt d) with Some f => n_down f | None => false end.
+
+Lemma dkeys_dsig d : dkeys d = map fst (dsig d).
+Proof. apply akeys_nsig. Qed.
+
+Lemma dn_dsig q d : dn q d = match aget q (dsig d) with Some b => b | None => false end.
+Proof. unfold dn, dsig. rewrite aget_nsig. destruct (aget q (d_nt d)); reflexivity. Qed.
+
+Lemma dn_same_sig d d' : dsig d' = dsig d -> forall q, dn q d' = dn q d.
+Proof. intros E q. rewrite !dn_dsig, E. reflexivity. Qed.
 
 (* every id below the group counter has a WorkerController *)
 Definition Inv (d : dstate) : Prop := forall m, m < d_next_gw d -> In m (dkeys d).
 
+(* a controller-side computation: ids only appear, the group counter only grows, and the down
+   flag of a node never changes (a node created meanwhile is not down) *)
 Definition Rk (d d' : dstate) : Prop :=
-  (forall k, In k (dkeys d) -> In k (dkeys d')) /\ (Inv d -> Inv d').
-Lemma Rk_refl d : Rk d d. Proof. split; auto. Qed.
+  (forall k, In k (dkeys d) -> In k (dkeys d')) /\ (Inv d -> Inv d') /\
+  d_next_gw d <= d_next_gw d' /\
+  (forall k, dn k d' = dn k d \/ (d_next_gw d <= k < d_next_gw d' /\ dn k d' = false)).
+Lemma Rk_refl d : Rk d d. Proof. split; [|split; [|split]]; auto. Qed.
 Lemma Rk_trans a b c : Rk a b -> Rk b c -> Rk a c.
-Proof. intros (A1 & A2) (B1 & B2). split; auto. Qed.
+Proof.
+  intros (A1 & A2 & A3 & A4) (B1 & B2 & B3 & B4). split; [|split; [|split]]; auto; [lia|].
+  intros k. destruct (B4 k) as [E|(E1 & E2)].
+  - destruct (A4 k) as [F|(F1 & F2)]; [left; congruence|right]. split; [lia|congruence].
+  - right. split; [lia|exact E2].
+Qed.
 
 Definition noreport (o : out) : Prop :=
   match o with OHook (HReport _ _ _ _) => False | _ => True end.
@@ -404,26 +473,23 @@ Proof. destruct o as [h| | |]; cbn; [contradiction|auto..]. Qed.
 Notation rfrom := (from Rk noreport).
 Definition rspec {A} (m : D A) : Prop := dspec Rk noreport m.
 
-(* same keys and same counter give Rk *)
-Lemma Rk_same d d' : dkeys d' = dkeys d -> d_next_gw d' = d_next_gw d -> Rk d d'.
+(* same down signature and same counter give Rk *)
+Lemma Rk_same d d' : dsig d' = dsig d -> d_next_gw d' = d_next_gw d -> Rk d d'.
 Proof.
-  intros Hk Hg. split.
-  - intros k Hin. rewrite Hk. exact Hin.
-  - intros I m Hm. rewrite Hk. apply I. rewrite <- Hg. exact Hm.
+  intros Hk Hg. assert (Hk' : dkeys d' = dkeys d) by (rewrite !dkeys_dsig, Hk; reflexivity).
+  split; [|split; [|split]].
+  - intros k Hin. rewrite Hk'. exact Hin.
+  - intros I m Hm. rewrite Hk'. apply I. rewrite <- Hg. exact Hm.
+  - lia.
+  - intros k. left. apply dn_same_sig. exact Hk.
 Qed.
 
-Lemma Rk_grow d d' : (forall k, In k (dkeys d) -> In k (dkeys d')) -> d_next_gw d' = d_next_gw d -> Rk d d'.
+Lemma r_sched_op op : plain_op op = true -> rspec (d_sched_op op).
 Proof.
-  intros Hk Hg. split; [exact Hk|].
-  intros I m Hm. apply Hk. apply I. rewrite <- Hg. exact Hm.
-Qed.
-
-Lemma r_sched_op op : rspec (d_sched_op op).
-Proof.
-  intros d d' o r H. pose proof H as H0.
+  intros Hp d d' o r H. pose proof H as H0.
   destruct (d_sched_op_frame _ _ _ _ _ H) as ((st & ->) & Hn). split.
   - unfold d_sched_op in H0. destruct (s_step (d_sched d) op) as [[st1 o1] r1] eqn:E. inversion H0; subst.
-    apply Rk_grow; [|reflexivity]. intros k Hk. exact (s_step_keys _ _ _ _ _ E k Hk).
+    apply Rk_same; [|reflexivity]. exact (s_step_sig _ _ _ _ _ Hp E).
   - eapply Forall_impl; [|exact Hn]. intros x. apply not_hook_noreport.
 Qed.
 
@@ -432,7 +498,7 @@ Proof. unfold d_nt, d_set_nt. cbn. apply s_nt_set. Qed.
 
 Lemma node_shutdown_facts n d d' o r :
   d_node_shutdown n d = (d', o, r) ->
-  dkeys d' = dkeys d /\ d_next_gw d' = d_next_gw d /\ Forall not_hook o.
+  dsig d' = dsig d /\ d_next_gw d' = d_next_gw d /\ Forall not_hook o.
 Proof.
   intros H. split; [|split].
   - exact (k_node_shutdown d_nt d_set_nt d_nt_set n _ _ _ _ H).
@@ -462,7 +528,7 @@ Ltac r1 :=
       | |- from _ _ _ (if ?x then _ else _) => destruct x
       | H : rspec ?m |- from _ _ _ ?m => apply H
       end
-    | apply r_sched_op | apply r_node_shutdown ].
+    | apply r_sched_op; reflexivity | apply r_node_shutdown ].
 Ltac rs := repeat r1.
 
 Lemma r_triggershutdown : rspec d_triggershutdown.
@@ -477,25 +543,34 @@ Proof. intros d0. unfold d_handlefailures. rs. Qed.
 Lemma r_handle_crashitem item n : rspec (d_handle_crashitem item n).
 Proof. intros d0. unfold d_handle_crashitem, hook. rs. Qed.
 
+Lemma dn_aset_neq d k q v : q <> k -> dn q (d_set_nt d (aset k v (d_nt d))) = dn q d.
+Proof. intros Hne. unfold dn. rewrite d_nt_set, aget_aset_neq; auto. Qed.
+Lemma dn_aset_eq d k v : dn k (d_set_nt d (aset k v (d_nt d))) = n_down v.
+Proof. unfold dn. rewrite d_nt_set, aget_aset_eq. reflexivity. Qed.
+
 Lemma r_clone_node n : rspec (d_clone_node n).
 Proof.
   intros d d' o r. unfold d_clone_node, mbind, get, of_opt, hook, emit, put, ret, raise.
   destruct (aget n (d_nt d)) as [f|] eqn:Ef.
   2:{ intros H; inversion H; subst. split; [apply Rk_refl|constructor]. }
   unfold d_sched_op. cbn [s_step]. intros H. inversion H; subst. cbn [app]. split.
-  - split.
+  - split; [|split; [|split]].
     + intros k Hk. unfold dkeys, d_nt in *. cbn. rewrite s_nt_set. apply akeys_aset_incl. exact Hk.
     + intros I m Hm. unfold dkeys, d_nt in *. cbn in *. rewrite s_nt_set.
       destruct (Nat.eq_dec m (d_next_gw d)) as [->|Hne].
       * apply akeys_aset_self.
       * apply akeys_aset_incl. apply I. lia.
+    + cbn. lia.
+    + intros k. destruct (Nat.eq_dec k (d_next_gw d)) as [->|Hne].
+      * right. split; [cbn; lia|]. unfold dn, d_nt. cbn. rewrite s_nt_set, aget_aset_eq. reflexivity.
+      * left. unfold dn, d_nt. cbn. rewrite s_nt_set, aget_aset_neq; auto.
   - repeat constructor.
 Qed.
 
 Lemma r_try_block n : rspec (try_block n).
 Proof.
   intros d d' o r. unfold try_block. destruct (d_sched_op (SRemove n) d) as [[d1 o1] r1] eqn:E1.
-  destruct (r_sched_op _ _ _ _ _ E1) as (R1 & Q1).
+  destruct (r_sched_op (SRemove n) eq_refl _ _ _ _ E1) as (R1 & Q1).
   destruct r1 as [[item|]|e].
   - destruct (d_handle_crashitem item n d1) as [[d2 o2] r2] eqn:E2. intros H; inversion H; subst.
     destruct (r_handle_crashitem _ _ _ _ _ _ E2) as (R2 & Q2).
@@ -641,69 +716,98 @@ Proof.
   - split; [lia|]. intros id sp Hin. pose proof (SP _ Hin eq_refl) as E. inversion E; subst. lia.
 Qed.
 
-(* ---- the receiver thread: queues exactly the report it read, forwards nothing ---- *)
-Lemma pfr_spec n m d d' o r :
-  process_from_remote n m d = (d', o, r) ->
+(* ---- the receiver thread ---- *)
+(* messages after which the receiver thread does not listen to the worker any more: an
+   undecodable message (the worker is written off), workerfinished, the channel end marker *)
+Definition cut_msg (m : upmsg) : bool :=
+  match m with UBad | UEnd | UFinished _ | UEv (EFinished _) => true | _ => false end.
+
+(* process_from_remote for a worker that has a WorkerController: never raises; queues exactly the
+   report it read when the node is heard, forwards nothing; marks the node down on a cut message *)
+Lemma pfr_spec n m d d' o r f :
+  process_from_remote n m d = (d', o, r) -> aget n (d_nt d) = Some f ->
   dkeys d' = dkeys d /\ d_next_gw d' = d_next_gw d /\ Forall not_hook o /\
-  (forall evs, r = Ok evs -> forall q, in_evq q evs = if Nat.eqb n q then rep_of_up m else []) /\
-  (forall e, r = Err e -> aget n (d_nt d) <> None -> rep_of_up m = []).
+  (forall q, q <> n -> dn q d' = dn q d) /\
+  dn n d' = (n_down f || cut_msg m) /\
+  exists evs, r = Ok evs /\
+    forall q, in_evq q evs = if Nat.eqb n q then (if n_down f || cut_msg m then [] else rep_of_up m) else [].
 Proof.
-  unfold process_from_remote. intros H.
-  apply mbind_inv in H. destruct H as [(d1 & o1 & dd & o2 & H1 & H & ->)|(e & H1 & _)]; [|inversion H1].
-  unfold get in H1. inversion H1; subst d1 o1 dd. clear H1. cbn [app].
-  destruct (aget n (d_nt d)) as [f|] eqn:Ef.
-  2:{ unfold mbind, of_opt, raise in H. inversion H; subst.
-      split; [reflexivity|]. split; [reflexivity|]. split; [constructor|]. split; [discriminate|].
-      intros e _ Hc. exfalso. apply Hc. reflexivity. }
-  apply mbind_inv in H. destruct H as [(d2 & o3 & f' & o4 & H1 & H & ->)|(e & H1 & _)]; [|inversion H1].
-  unfold of_opt, ret in H1. inversion H1; subst d2 o3 f'. clear H1. cbn [app]. cbv zeta in H.
+  intros H Ef.
   assert (KS : forall v, dkeys (d_set_nt d (aset n v (d_nt d))) = dkeys d).
   { intros v. unfold dkeys. rewrite d_nt_set. apply akeys_aset_in. eapply aget_some_in; eauto. }
-  assert (QE : forall q, in_evq q [QErrorDown n] = []) by reflexivity.
-  assert (SD : forall (evs0 : list cevent) d' o r, (d_node_shutdown n ;;; ret evs0) d = (d', o, r) ->
-               dkeys d' = dkeys d /\ d_next_gw d' = d_next_gw d /\ Forall not_hook o /\
-               (forall evs, r = Ok evs -> evs = evs0)).
-  { clear. intros evs0 d' o r HS. apply mbind_inv in HS. destruct HS as [(d5 & o5 & [] & o6 & H1 & H2 & ->)|(e & H1 & ->)].
-    - destruct (node_shutdown_facts _ _ _ _ _ H1) as (K & G & N). unfold ret in H2. inversion H2; subst.
-      rewrite app_nil_r. repeat split; auto. intros evs E. inversion E. reflexivity.
-    - destruct (node_shutdown_facts _ _ _ _ _ H1) as (K & G & N). repeat split; auto. discriminate. }
-  destruct m as [e|ids|sk|i ms|[|]| | |].
-  - destruct e; unfold mbind, put, ret in H; inversion H; subst; cbn [app];
-      (split; [first [reflexivity|apply KS]|]); (split; [reflexivity|]); (split; [constructor|]);
-      (split; [|discriminate]); intros evs E q; inversion E; subst; cbn; try reflexivity;
-      destruct (Nat.eqb n q); reflexivity.
-  - unfold ret in H. inversion H; subst. repeat split; try constructor; try discriminate.
-    intros evs E q. inversion E; subst. cbn. destruct (Nat.eqb n q); reflexivity.
-  - unfold mbind, put, ret in H. inversion H; subst. cbn [app].
-    split; [apply KS|]. split; [reflexivity|]. split; [constructor|]. split; [|discriminate].
-    intros evs E q. inversion E; subst. cbn. destruct (Nat.eqb n q); reflexivity.
-  - unfold ret in H. inversion H; subst. repeat split; try constructor; try discriminate.
-    intros evs E q. inversion E; subst. cbn. destruct (Nat.eqb n q); reflexivity.
-  - unfold ret in H. inversion H; subst. repeat split; try constructor; try discriminate.
-    intros evs E q. inversion E; subst. cbn. destruct (Nat.eqb n q); reflexivity.
-  - unfold ret in H. inversion H; subst. repeat split; try constructor; try discriminate.
-    intros evs E q. inversion E; subst. cbn. destruct (Nat.eqb n q); reflexivity.
-  - unfold ret in H. inversion H; subst. repeat split; try constructor; try discriminate.
-    intros evs E q. inversion E; subst. cbn. destruct (Nat.eqb n q); reflexivity.
-  - destruct (SD _ _ _ _ H) as (K & G & N & EV). split; [exact K|]. split; [exact G|]. split; [exact N|].
-    split; [|reflexivity]. intros evs E q. rewrite (EV _ E). cbn. destruct (Nat.eqb n q); reflexivity.
-  - destruct (n_down f).
-    + unfold ret in H. inversion H; subst. repeat split; try constructor; try discriminate.
-      intros evs E q. inversion E; subst. cbn. destruct (Nat.eqb n q); reflexivity.
-    + unfold mbind, put, ret in H. inversion H; subst. cbn [app].
-      split; [apply KS|]. split; [reflexivity|]. split; [constructor|]. split; [|reflexivity].
-      intros evs E q. inversion E; subst. cbn. destruct (Nat.eqb n q); reflexivity.
+  assert (DN : dn n d = n_down f) by (unfold dn; rewrite Ef; reflexivity).
+  (* the two shapes of the result *)
+  assert (SAME : forall evs0 : list cevent,
+            (d, @nil out, Ok evs0) = (d', o, r) ->
+            (n_down f || cut_msg m) = n_down f ->
+            (forall q, in_evq q evs0 = if Nat.eqb n q then (if n_down f || cut_msg m then [] else rep_of_up m) else []) ->
+            dkeys d' = dkeys d /\ d_next_gw d' = d_next_gw d /\ Forall not_hook o /\
+            (forall q, q <> n -> dn q d' = dn q d) /\ dn n d' = (n_down f || cut_msg m) /\
+            exists evs, r = Ok evs /\
+              forall q, in_evq q evs = if Nat.eqb n q then (if n_down f || cut_msg m then [] else rep_of_up m) else []).
+  { intros evs0 E Hc Hq. inversion E; subst d' o r. repeat split; auto. { rewrite Hc; exact DN. } eexists; split; [reflexivity|exact Hq]. }
+  assert (DOWN : forall (evs0 : list cevent) v (o0 : list out) d0,
+            (d_set_nt d0 (aset n v (d_nt d0)), o0, Ok evs0) = (d', o, r) ->
+            dsig d0 = dsig d -> d_next_gw d0 = d_next_gw d -> Forall not_hook o0 ->
+            n_down v = true -> (n_down f || cut_msg m) = true ->
+            (forall q, in_evq q evs0 = []) ->
+            dkeys d' = dkeys d /\ d_next_gw d' = d_next_gw d /\ Forall not_hook o /\
+            (forall q, q <> n -> dn q d' = dn q d) /\ dn n d' = (n_down f || cut_msg m) /\
+            exists evs, r = Ok evs /\
+              forall q, in_evq q evs = if Nat.eqb n q then (if n_down f || cut_msg m then [] else rep_of_up m) else []).
+  { intros evs0 v o0 d0 E Hs Hg Ho Hv Hc Hq. inversion E; subst d' o r.
+    assert (K0 : dkeys d0 = dkeys d) by (rewrite !dkeys_dsig, Hs; reflexivity).
+    split.
+    { unfold dkeys at 1. rewrite d_nt_set. rewrite akeys_aset_in; [exact K0|]. fold (dkeys d0). rewrite K0.
+      eapply aget_some_in; eauto. }
+    split; [exact Hg|]. split; [exact Ho|]. split.
+    { intros q Hq'. rewrite dn_aset_neq by exact Hq'. apply dn_same_sig. exact Hs. }
+    split; [rewrite dn_aset_eq, Hc; exact Hv|].
+    eexists. split; [reflexivity|]. intros q. rewrite Hq, Hc. destruct (Nat.eqb n q); reflexivity. }
+  unfold process_from_remote, mbind, get, of_opt, ret, raise in H. cbn beta iota zeta in H.
+  rewrite Ef in H. cbn beta iota zeta in H.
+  destruct (n_down f) eqn:Edn.
+  - (* already down: nothing is heard *)
+    assert (H' : (d, @nil out, Ok (@nil cevent)) = (d', o, r)).
+    { destruct m as [e|ids|sk|i ms|dec| | |]; exact H. }
+    apply (SAME [] H'); [reflexivity|]. intros q. cbn. destruct (Nat.eqb n q); reflexivity.
+  - destruct m as [e|ids|sk|i ms|dec| | |]; unfold put in H; cbn beta iota zeta in H.
+    + destruct e; cbn beta iota zeta in H;
+        try (apply (SAME _ H); [reflexivity|]; intros q; cbn; destruct (Nat.eqb n q); reflexivity).
+      apply (DOWN _ _ _ d H); auto; try (cbn; constructor).
+    + apply (SAME _ H); [reflexivity|]. intros q. cbn. destruct (Nat.eqb n q); reflexivity.
+    + apply (DOWN _ _ _ d H); auto; try (cbn; constructor).
+    + apply (SAME _ H); [reflexivity|]. intros q. cbn. destruct (Nat.eqb n q); reflexivity.
+    + apply (SAME _ H); [reflexivity|]. intros q. cbn. destruct (Nat.eqb n q); reflexivity.
+    + apply (SAME _ H); [reflexivity|]. intros q. cbn. destruct (Nat.eqb n q); reflexivity.
+    + (* undecodable message: shutdown(), the node is marked down, errordown is queued *)
+      destruct (d_node_shutdown n d) as [[d1 o1] r1] eqn:Esd.
+      destruct (node_shutdown_facts _ _ _ _ _ Esd) as (S1 & G1 & N1).
+      assert (R1 : r1 = Ok tt).
+      { clear -Esd Ef. unfold d_node_shutdown, node_shutdown, node_send, node_flags, mbind, get, put, of_opt, ret, raise, emit in Esd.
+        cbn -[aset aget] in Esd. rewrite Ef in Esd. cbn -[aset aget] in Esd.
+        destruct (n_down f || n_sdsent f); cbn -[aset aget] in Esd; [inversion Esd; reflexivity|].
+        rewrite Ef in Esd. cbn -[aset aget] in Esd.
+        destruct (n_closed f); cbn -[aset aget] in Esd; inversion Esd; reflexivity. }
+      subst r1.
+      assert (E1 : exists f1, aget n (d_nt d1) = Some f1).
+      { pose proof (aget_nsig n (d_nt d1)) as A1. fold (dsig d1) in A1. rewrite S1 in A1. unfold dsig in A1.
+        rewrite aget_nsig, Ef in A1. destruct (aget n (d_nt d1)) as [f1|]; [eexists; reflexivity|discriminate]. }
+      destruct E1 as (f1 & E1). rewrite E1 in H. cbn beta iota zeta in H. rewrite app_nil_r in H.
+      apply (DOWN _ _ _ d1 H); auto; try (cbn; constructor).
+    + apply (DOWN _ _ _ d H); auto; try (cbn; constructor).
 Qed.
 
 (* ====================================================================================== *)
 (* Part D: the system                                                                      *)
 (* ====================================================================================== *)
 
-(* ids at or above the group counter are unused (no wire, no process), and every id below
-   it has a WorkerController *)
+(* ids at or above the group counter are unused (no wire, no process, not down), and every id
+   below it has a WorkerController *)
 Definition WF (s : sys) : Prop :=
   (forall m, d_next_gw (y_d s) <= m -> aget m (y_up s) = None /\ aget m (y_w s) = None) /\
-  Inv (y_d s).
+  Inv (y_d s) /\
+  (forall m, d_next_gw (y_d s) <= m -> dn m (y_d s) = false).
 
 Lemma alist_get_aset_eq {V} (dflt : V) k v (m : amap V) : alist_get dflt k (aset k v m) = v.
 Proof. unfold alist_get. rewrite aget_aset_eq. reflexivity. Qed.
@@ -711,20 +815,256 @@ Lemma alist_get_aset_neq {V} (dflt : V) k k2 v (m : amap V) :
   k2 <> k -> alist_get dflt k2 (aset k v m) = alist_get dflt k2 m.
 Proof. intros H. unfold alist_get. rewrite aget_aset_neq; auto. Qed.
 
+(* ---- what the property looks at, per worker ---- *)
+Definition wire (n : nat) (s : sys) : list upmsg := alist_get [] n (y_up s).
+Definition sdn (n : nat) (s : sys) : bool := dn n (y_d s).
+Definition wk (n : nat) (s : sys) : option wst := aget n (y_w s).
+Definition dd (n : nat) (s : sys) : bool := mem_nat n (y_dead s).
+
+(* the reports on a wire that the receiver thread will still hear: those before the first cut *)
+Fixpoint heard_wire (l : list upmsg) : list rep :=
+  match l with
+  | [] => []
+  | m :: r => if cut_msg m then [] else rep_of_up m ++ heard_wire r
+  end.
+Definition in_up_heard (n : nat) (s : sys) : list rep :=
+  if sdn n s then [] else heard_wire (wire n s).
+(* worker n is not (or will not be) listened to any more *)
+Definition cut_state (n : nat) (s : sys) : bool := sdn n s || existsb cut_msg (wire n s).
+
+Lemma in_up_wire n s : in_up n s = flat_map rep_of_up (wire n s).
+Proof. reflexivity. Qed.
+
+(* on the worker side: a garbled report and workerfinished are the events whose message is a cut *)
+Definition rep_of_ev (e : wevent) : list rep :=
+  match e with EReport i k oc => [(i,k,oc)] | _ => [] end.
+Definition is_garbled (e : wevent) : bool :=
+  match e with EReport _ _ Garbled => true | _ => false end.
+Definition is_fin (e : wevent) : bool :=
+  match e with EFinished _ => true | _ => false end.
+Definition cut_ev (e : wevent) : bool := is_garbled e || is_fin e.
+
+(* the reports of worker n produced before its first cut event *)
+Fixpoint audible (n : nat) (w : list (nat * wevent)) : list rep :=
+  match w with
+  | [] => []
+  | (m, e) :: r =>
+      if Nat.eqb m n then (if cut_ev e then [] else rep_of_ev e ++ audible n r) else audible n r
+  end.
+Definition has_cut (n : nat) (w : list (nat * wevent)) : bool :=
+  existsb (fun p => Nat.eqb (fst p) n && cut_ev (snd p)) w.
+Definition garbled (n : nat) (w : list (nat * wevent)) : bool :=
+  existsb (fun p => Nat.eqb (fst p) n && is_garbled (snd p)) w.
+(* the reports of worker n produced before its first garbled report *)
+Fixpoint decod (n : nat) (w : list (nat * wevent)) : list rep :=
+  match w with
+  | [] => []
+  | (m, e) :: r =>
+      if Nat.eqb m n then (if is_garbled e then [] else rep_of_ev e ++ decod n r) else decod n r
+  end.
+(* the same, on the list of reports: cut before the first garbled one *)
+Fixpoint decodable (l : list rep) : list rep :=
+  match l with
+  | [] => []
+  | (i, k, Garbled) :: _ => []
+  | x :: r => x :: decodable r
+  end.
+
+Definition nev (n : nat) (w : list (nat * wevent)) : Prop := forall e, ~ In (n, e) w.
+
+Lemma produced_cons n m e w :
+  produced n ((m, e) :: w) = (if Nat.eqb m n then rep_of_ev e else []) ++ produced n w.
+Proof. unfold produced. cbn [flat_map]. destruct e; destruct (Nat.eqb m n); reflexivity. Qed.
+
+Lemma nev_cons n m e w : nev n ((m, e) :: w) -> Nat.eqb m n = false /\ nev n w.
+Proof.
+  intros H. split.
+  - destruct (Nat.eqb m n) eqn:E; [|reflexivity]. apply Nat.eqb_eq in E. subst m.
+    exfalso. apply (H e). left. reflexivity.
+  - intros e' Hin. apply (H e'). right. exact Hin.
+Qed.
+
+Lemma nev_facts n w : nev n w -> produced n w = [] /\ audible n w = [] /\ decod n w = [] /\
+                               has_cut n w = false /\ garbled n w = false.
+Proof.
+  induction w as [|[m e] w IH]; intros H; [repeat split; reflexivity|].
+  destruct (nev_cons _ _ _ _ H) as (E & H'). destruct (IH H') as (A & B & C & D & F).
+  rewrite produced_cons. unfold has_cut, garbled in *. cbn [audible decod existsb fst snd]. rewrite E, A, B, C, D, F.
+  repeat split; reflexivity.
+Qed.
+
+Lemma nev_nil n : nev n []. Proof. intros e []. Qed.
+Lemma nev_app n a b : nev n a -> nev n b -> nev n (a ++ b).
+Proof. intros A B e Hin. apply in_app_or in Hin. destruct Hin; [eapply A|eapply B]; eauto. Qed.
+Lemma nev_other n n0 (evs : list wevent) : n <> n0 -> nev n (map (fun e => (n0, e)) evs).
+Proof. intros Hne e Hin. apply in_map_iff in Hin. destruct Hin as (x & E & _). inversion E. congruence. Qed.
+
+Lemma audible_app n a b : audible n (a ++ b) = audible n a ++ if has_cut n a then [] else audible n b.
+Proof.
+  induction a as [|[m e] a IH]; [reflexivity|]. unfold has_cut in *. cbn [app audible existsb fst snd].
+  destruct (Nat.eqb m n); cbn [andb orb]; [|exact IH].
+  destruct (cut_ev e); cbn [orb]; [reflexivity|]. rewrite IH, app_assoc. reflexivity.
+Qed.
+Lemma decod_app n a b : decod n (a ++ b) = decod n a ++ if garbled n a then [] else decod n b.
+Proof.
+  induction a as [|[m e] a IH]; [reflexivity|]. unfold garbled in *. cbn [app decod existsb fst snd].
+  destruct (Nat.eqb m n); cbn [andb orb]; [|exact IH].
+  destruct (is_garbled e); cbn [orb]; [reflexivity|]. rewrite IH, app_assoc. reflexivity.
+Qed.
+Lemma has_cut_app n a b : has_cut n (a ++ b) = has_cut n a || has_cut n b.
+Proof. apply existsb_app. Qed.
+Lemma garbled_app n a b : garbled n (a ++ b) = garbled n a || garbled n b.
+Proof. apply existsb_app. Qed.
+
+(* pure list facts: the decodable reports are a prefix of the produced ones *)
+Lemma decod_decodable n w : decod n w = decodable (produced n w).
+Proof.
+  induction w as [|[m e] w IH]; [reflexivity|]. rewrite produced_cons. cbn [decod].
+  destruct (Nat.eqb m n); [|exact IH].
+  destruct e; cbn [is_garbled rep_of_ev app]; try exact IH.
+  destruct oc; cbn [decodable]; rewrite ?IH; reflexivity.
+Qed.
+Lemma decodable_prefix l : exists rest, l = decodable l ++ rest.
+Proof.
+  induction l as [|[[i k] oc] l (rest & IH)]; [exists []; reflexivity|].
+  destruct oc; cbn [decodable]; try (exists rest; cbn; rewrite <- IH; reflexivity).
+  eexists. reflexivity.
+Qed.
+Lemma decodable_id l : (forall i k, ~ In (i, k, Garbled) l) -> decodable l = l.
+Proof.
+  induction l as [|[[i k] oc] l IH]; intros H; [reflexivity|].
+  assert (H' : forall i k, ~ In (i, k, Garbled) l) by (intros i' k' Hin; apply (H i' k'); right; exact Hin).
+  destruct oc; cbn [decodable]; rewrite ?(IH H'); try reflexivity.
+  exfalso. apply (H i k). left. reflexivity.
+Qed.
+Lemma garbled_produced n w : garbled n w = false <-> (forall i k, ~ In (i, k, Garbled) (produced n w)).
+Proof.
+  induction w as [|[m e] w IH]; [split; [intros _ i k []|reflexivity]|].
+  rewrite produced_cons. unfold garbled in *. cbn [existsb fst snd].
+  destruct (Nat.eqb m n); cbn [andb orb app]; [|exact IH].
+  destruct e; cbn [is_garbled rep_of_ev orb app]; try exact IH.
+  destruct oc; cbn [orb].
+  1-3: rewrite IH; split; [intros H i' k' [E|Hin]; [discriminate|exact (H _ _ Hin)]|intros H i' k' Hin; apply (H i' k'); right; exact Hin].
+  split; [discriminate|]. intros H. exfalso. apply (H i k). left. reflexivity.
+Qed.
+
+(* ---- heard_wire ---- *)
+Lemma heard_wire_app a b :
+  heard_wire (a ++ b) = heard_wire a ++ if existsb cut_msg a then [] else heard_wire b.
+Proof.
+  induction a as [|m a IH]; [reflexivity|]. cbn [app heard_wire existsb].
+  destruct (cut_msg m); cbn [orb]; [reflexivity|]. rewrite IH, app_assoc. reflexivity.
+Qed.
+Lemma heard_wire_nocut l : existsb cut_msg l = false -> heard_wire l = flat_map rep_of_up l.
+Proof.
+  induction l as [|m l IH]; [reflexivity|]. cbn [existsb heard_wire flat_map].
+  destruct (cut_msg m); cbn [orb]; [discriminate|]. intros H. rewrite (IH H). reflexivity.
+Qed.
+
+Lemma cut_up c n e : cut_msg (up_of_wevent c n e) = cut_ev e.
+Proof. destruct e; try reflexivity. destruct oc; reflexivity. Qed.
+Lemma rep_up c n e : cut_ev e = false -> rep_of_up (up_of_wevent c n e) = rep_of_ev e.
+Proof. destruct e; try reflexivity. destruct oc; try reflexivity. discriminate. Qed.
+
+Lemma heard_own c n evs :
+  heard_wire (map (up_of_wevent c n) evs) = audible n (map (fun e => (n, e)) evs).
+Proof.
+  induction evs as [|e evs IH]; [reflexivity|]. cbn [map heard_wire audible].
+  rewrite Nat.eqb_refl, cut_up. destruct (cut_ev e) eqn:E; [reflexivity|].
+  rewrite (rep_up c n e E), IH. reflexivity.
+Qed.
+Lemma cut_own c n evs :
+  existsb cut_msg (map (up_of_wevent c n) evs) = has_cut n (map (fun e => (n, e)) evs).
+Proof.
+  unfold has_cut. induction evs as [|e evs IH]; [reflexivity|]. cbn [map existsb fst snd].
+  rewrite Nat.eqb_refl, cut_up, IH. reflexivity.
+Qed.
+
+(* ---- one step of the system, as seen from worker n ---- *)
+Inductive node_step (c : config) (n : nat) (s s' : sys) (o : list out) (w : list (nat * wevent)) : Prop :=
+| NS_other :
+    wire n s' = wire n s -> sdn n s' = sdn n s -> dd n s' = dd n s -> nev n w ->
+    forwarded n o ++ in_evq n (y_evq s') = in_evq n (y_evq s) ->
+    (wk n s' = wk n s \/
+     (wk n s = None /\ wk n s' = Some w_init /\ wire n s = [] /\ sdn n s = false) \/
+     (exists w0 cmd, wk n s = Some w0 /\ wk n s' = Some (deliver w0 cmd))) ->
+    node_step c n s s' o w
+| NS_work w0 w1 evs :
+    dd n s = false -> wk n s = Some w0 -> wk n s' = Some w1 ->
+    (recv_step (c_oracle c n) w0 = (w1, evs) \/ main_step (c_oracle c n) w0 = Some (w1, evs)) ->
+    w = map (fun e => (n, e)) evs -> wire n s' = wire n s ++ map (up_of_wevent c n) evs ->
+    sdn n s' = sdn n s -> dd n s' = dd n s -> o = [] -> y_evq s' = y_evq s ->
+    node_step c n s s' o w
+| NS_crash :
+    dd n s = false -> dd n s' = true -> wire n s' = wire n s ++ [UEnd] ->
+    sdn n s' = sdn n s -> wk n s' = wk n s -> w = [] -> o = [] -> y_evq s' = y_evq s ->
+    node_step c n s s' o w
+| NS_recv m rest :
+    wire n s = m :: rest -> wire n s' = rest -> sdn n s' = (sdn n s || cut_msg m) ->
+    wk n s' = wk n s -> dd n s' = dd n s -> w = [] -> forwarded n o = [] ->
+    in_evq n (y_evq s') = in_evq n (y_evq s) ++ (if sdn n s || cut_msg m then [] else rep_of_up m) ->
+    node_step c n s s' o w.
+
+(* the equation of the property, for one step *)
+Lemma ns_equation c n s s' o w :
+  node_step c n s s' o w ->
+  forwarded n o ++ in_evq n (y_evq s') ++ in_up_heard n s' =
+  in_evq n (y_evq s) ++ in_up_heard n s ++ (if cut_state n s then [] else audible n w).
+Proof.
+  intros [Hw Hd Hdd Hn He _|w0 w1 evs Hdd Hk Hk' Hs -> Hw Hd Hdd' -> He|Hdd Hdd' Hw Hd Hk -> -> He
+         |m rest Hw Hw' Hd Hk Hdd -> Ho He]; unfold in_up_heard, cut_state.
+  - destruct (nev_facts _ _ Hn) as (_ & A & _). rewrite A, Hw, Hd, app_assoc, He.
+    destruct (_ || _); rewrite app_nil_r; reflexivity.
+  - rewrite He, Hd, Hw, heard_wire_app, heard_own. cbn [forwarded flat_map app].
+    destruct (sdn n s); cbn [orb]; [rewrite !app_nil_r; reflexivity|].
+    destruct (existsb cut_msg (wire n s)); reflexivity.
+  - rewrite He, Hd, Hw, heard_wire_app. cbn [forwarded flat_map app heard_wire cut_msg audible].
+    destruct (sdn n s); cbn [orb]; [rewrite !app_nil_r; reflexivity|].
+    destruct (existsb cut_msg (wire n s)); rewrite !app_nil_r; reflexivity.
+  - rewrite Ho, He, Hd, Hw, Hw'. cbn [app heard_wire existsb audible].
+    destruct (sdn n s); cbn [orb]; [rewrite !app_nil_r; reflexivity|].
+    destruct (cut_msg m); cbn [orb]; rewrite ?app_nil_r; [reflexivity|].
+    destruct (existsb cut_msg rest); rewrite ?app_nil_r, <- ?app_assoc; reflexivity.
+Qed.
+
+(* how the cut state of worker n evolves in one step *)
+Lemma ns_cut c n s s' o w :
+  node_step c n s s' o w ->
+  (cut_state n s = true -> cut_state n s' = true) /\
+  (has_cut n w = true -> cut_state n s' = true) /\
+  (cut_state n s' = true -> cut_state n s = true \/ has_cut n w = true \/ dd n s' = true) /\
+  (dd n s = true -> dd n s' = true /\ nev n w).
+Proof.
+  intros [Hw Hd Hdd Hn He _|w0 w1 evs Hdd Hk Hk' Hs -> Hw Hd Hdd' -> He|Hdd Hdd' Hw Hd Hk -> -> He
+         |m rest Hw Hw' Hd Hk Hdd -> Ho He]; unfold cut_state.
+  - destruct (nev_facts _ _ Hn) as (_ & _ & _ & A & _). rewrite A, Hw, Hd, Hdd.
+    repeat split; auto. discriminate.
+  - rewrite Hd, Hw, existsb_app, cut_own, Hdd', Hdd.
+    split; [intros H; rewrite orb_assoc, H; reflexivity|].
+    split; [intros H; rewrite H, !orb_true_r; reflexivity|].
+    split; [|discriminate].
+    intros H. rewrite orb_assoc in H. apply orb_true_iff in H. destruct H; auto.
+  - rewrite Hd, Hw, existsb_app, Hdd, Hdd'. cbn [existsb cut_msg orb]. rewrite !orb_true_r.
+    repeat split; auto; discriminate.
+  - rewrite Hd, Hw, Hw', Hdd. cbn [existsb]. rewrite orb_assoc.
+    repeat split; auto; try discriminate. apply nev_nil.
+Qed.
+
 (* ---- apply_outs ---- *)
 Lemma apply_outs_frame outs : forall s,
-  y_evq (apply_outs s outs) = y_evq s /\ y_d (apply_outs s outs) = y_d s.
+  y_evq (apply_outs s outs) = y_evq s /\ y_d (apply_outs s outs) = y_d s /\
+  y_dead (apply_outs s outs) = y_dead s.
 Proof.
-  induction outs as [|x outs IH]; intros s; [split; reflexivity|].
+  induction outs as [|x outs IH]; intros s; [repeat split; reflexivity|].
   destruct x as [h|n cmd| |]; cbn [apply_outs]; try apply IH.
   - destruct h; try apply IH. destruct (IH {| y_d := y_d s; y_evq := y_evq s; y_down := aset newid [] (y_down s);
                     y_up := aset newid [] (y_up s); y_w := aset newid w_init (y_w s);
-                    y_dead := y_dead s; y_result := y_result s |}) as (A & B). split; assumption.
+                    y_dead := y_dead s; y_result := y_result s |}) as (A & B & C). repeat split; assumption.
   - destruct (mem_nat n (y_dead s)); [apply IH|].
     destruct (IH {| y_d := y_d s; y_evq := y_evq s;
            y_down := aset n (alist_get [] n (y_down s) ++ [cmd]) (y_down s);
-           y_up := y_up s; y_w := y_w s; y_dead := y_dead s; y_result := y_result s |}) as (A & B).
-    split; assumption.
+           y_up := y_up s; y_w := y_w s; y_dead := y_dead s; y_result := y_result s |}) as (A & B & C).
+    repeat split; assumption.
 Qed.
 
 Lemma apply_outs_up outs : forall s q,
@@ -763,26 +1103,56 @@ Proof.
   - destruct (mem_nat n (y_dead s)); apply IH; assumption.
 Qed.
 
+(* the processes after a controller move: a spawned id has a fresh process, the others are untouched *)
+Lemma apply_outs_w outs : forall s q,
+  aget q (y_w (apply_outs s outs)) = aget q (y_w s) \/
+  ((exists sp, In (OHook (HSpawn q sp)) outs) /\ aget q (y_w (apply_outs s outs)) = Some w_init).
+Proof.
+  induction outs as [|x outs IH]; intros s q; [left; reflexivity|].
+  assert (LIFT : forall s1, aget q (y_w s1) = aget q (y_w s) ->
+     aget q (y_w (apply_outs s1 outs)) = aget q (y_w s) \/
+     ((exists sp, In (OHook (HSpawn q sp)) (x :: outs)) /\ aget q (y_w (apply_outs s1 outs)) = Some w_init)).
+  { intros s1 E. destruct (IH s1 q) as [A|((sp & A) & B)]; [left; congruence|].
+    right. split; [exists sp; right; exact A|exact B]. }
+  destruct x as [h|n cmd| |]; cbn [apply_outs]; try (apply LIFT; reflexivity).
+  - destruct h; try (apply LIFT; reflexivity).
+    destruct (Nat.eq_dec q newid) as [->|Hne].
+    + right. split; [exists spec; left; reflexivity|].
+      destruct (IH {| y_d := y_d s; y_evq := y_evq s; y_down := aset newid [] (y_down s);
+                    y_up := aset newid [] (y_up s); y_w := aset newid w_init (y_w s);
+                    y_dead := y_dead s; y_result := y_result s |} newid) as [A|(_ & B)]; [|exact B].
+      rewrite A. cbn [y_w]. apply aget_aset_eq.
+    + apply LIFT. cbn [y_w]. apply aget_aset_neq. exact Hne.
+  - destruct (mem_nat n (y_dead s)); apply LIFT; reflexivity.
+Qed.
+
 (* a controller move: new controller state, then its outputs applied *)
 Lemma ctl_move s d' outs :
-  WF s -> Rk (y_d s) d' -> d_next_gw (y_d s) <= d_next_gw d' ->
+  WF s -> Inv d' -> (forall m, d_next_gw d' <= m -> dn m d' = false) ->
+  d_next_gw (y_d s) <= d_next_gw d' ->
   (forall id sp, In (OHook (HSpawn id sp)) outs -> d_next_gw (y_d s) <= id < d_next_gw d') ->
   WF (apply_outs (set_d s d') outs) /\
   y_evq (apply_outs (set_d s d') outs) = y_evq s /\
   y_d (apply_outs (set_d s d') outs) = d' /\
-  forall q, alist_get [] q (y_up (apply_outs (set_d s d') outs)) = alist_get [] q (y_up s).
+  y_dead (apply_outs (set_d s d') outs) = y_dead s /\
+  (forall q, alist_get [] q (y_up (apply_outs (set_d s d') outs)) = alist_get [] q (y_up s)) /\
+  (forall q, aget q (y_w (apply_outs (set_d s d') outs)) = aget q (y_w s) \/
+             (d_next_gw (y_d s) <= q /\ aget q (y_w (apply_outs (set_d s d') outs)) = Some w_init)).
 Proof.
-  intros (W1 & W2) (R1 & R2) G SP.
-  destruct (apply_outs_frame outs (set_d s d')) as (F1 & F2). cbn [set_d y_evq y_d] in F1, F2.
-  split; [|split; [exact F1|split; [exact F2|]]].
-  - split.
+  intros (W1 & W2 & W3) I' D' G SP.
+  destruct (apply_outs_frame outs (set_d s d')) as (F1 & F2 & F3). cbn [set_d y_evq y_d y_dead] in F1, F2, F3.
+  split; [|split; [exact F1|split; [exact F2|split; [exact F3|split]]]].
+  - split; [|split].
     + rewrite F2. intros m Hm. apply apply_outs_none.
       * intros sp Hin. specialize (SP _ _ Hin). lia.
       * cbn [set_d y_up y_w]. apply W1. lia.
-    + rewrite F2. apply R2. exact W2.
+    + rewrite F2. exact I'.
+    + rewrite F2. exact D'.
   - intros q. rewrite apply_outs_up; [reflexivity|].
     intros id sp Hin. cbn [set_d y_up]. specialize (SP _ _ Hin).
     unfold alist_get. destruct (W1 id) as (U & _); [lia|]. rewrite U. reflexivity.
+  - intros q. destruct (apply_outs_w outs (set_d s d') q) as [A|((sp & A) & B)]; [left; exact A|].
+    right. split; [|exact B]. specialize (SP _ _ A). lia.
 Qed.
 
 Lemma no_spawn_not_hook outs id sp : Forall not_hook outs -> ~ In (OHook (HSpawn id sp)) outs.
@@ -790,169 +1160,258 @@ Proof. intros F Hin. rewrite Forall_forall in F. exact (F _ Hin). Qed.
 
 (* WF looks only at y_d, y_up and y_w *)
 Lemma WF_ext s s' : y_d s' = y_d s -> y_up s' = y_up s -> y_w s' = y_w s -> WF s -> WF s'.
-Proof. intros E1 E2 E3 (W1 & W2). unfold WF. rewrite E1, E2, E3. split; assumption. Qed.
+Proof. intros E1 E2 E3 (W1 & W2 & W3). unfold WF. rewrite E1, E2, E3. split; [|split]; assumption. Qed.
 
-(* ---- reports carried by worker events ---- *)
-Lemma produced_own c n evs :
-  flat_map rep_of_up (map (up_of_wevent c n) evs) = produced n (map (fun e => (n, e)) evs).
+(* a worker that has a wire or a process has a WorkerController *)
+Lemma WF_ctl s n : WF s -> (aget n (y_up s) <> None \/ aget n (y_w s) <> None) ->
+  n < d_next_gw (y_d s) /\ exists f, aget n (d_nt (y_d s)) = Some f.
 Proof.
-  induction evs as [|e evs IH]; [reflexivity|].
-  cbn [map flat_map]. unfold produced in *. cbn [flat_map]. rewrite IH.
-  destruct e; cbn; rewrite ?Nat.eqb_refl; reflexivity.
+  intros (W1 & W2 & _) H.
+  assert (Hlt : n < d_next_gw (y_d s)).
+  { destruct (le_lt_dec (d_next_gw (y_d s)) n) as [Hle|Hlt]; [|exact Hlt].
+    destruct (W1 n Hle) as (X & Y). destruct H; contradiction. }
+  split; [exact Hlt|]. specialize (W2 n Hlt). apply aget_in_akeys in W2.
+  destruct (aget n (d_nt (y_d s))) as [f|]; [eexists; reflexivity|contradiction].
 Qed.
 
-Lemma produced_other n q (evs : list wevent) : q <> n -> produced q (map (fun e => (n, e)) evs) = [].
+
+(* a controller move leaves worker n alone, except that it may create it *)
+Definition ctl_step (n : nat) (s s' : sys) (o : list out) : Prop :=
+  wire n s' = wire n s /\ sdn n s' = sdn n s /\ dd n s' = dd n s /\
+  forwarded n o ++ in_evq n (y_evq s') = in_evq n (y_evq s) /\
+  (wk n s' = wk n s \/ (wk n s = None /\ wk n s' = Some w_init /\ wire n s = [] /\ sdn n s = false)).
+
+Lemma ctl_step_ns c n s s' o : ctl_step n s s' o -> node_step c n s s' o [].
 Proof.
-  intros Hne. induction evs as [|e evs IH]; [reflexivity|].
-  unfold produced in *. cbn [map flat_map]. rewrite IH.
-  destruct e; try reflexivity. destruct (Nat.eqb n q) eqn:E; [apply Nat.eqb_eq in E; congruence|reflexivity].
+  intros (A & B & C & D & E). apply NS_other; auto; [apply nev_nil|].
+  destruct E as [E|E]; [left; exact E|right; left; exact E].
 Qed.
 
-(* a worker step of worker n: its events go to the end of its own wire *)
-Lemma push_step c s n w w' evs q :
-  WF s -> aget n (y_w s) = Some w ->
-  let s' := push_up (set_w s n w') n (map (up_of_wevent c n) evs) in
-  WF s' /\ y_evq s' = y_evq s /\
-  in_up q s' = in_up q s ++ produced q (map (fun e => (n, e)) evs).
+Lemma ctl_step_trans n s s1 s2 o1 o2 :
+  ctl_step n s s1 o1 -> ctl_step n s1 s2 o2 -> ctl_step n s s2 (o1 ++ o2).
 Proof.
-  intros (W1 & W2) Hw s'. subst s'. split; [|split; [reflexivity|]].
-  - split; [|exact W2]. cbn [push_up set_w y_d y_up y_w]. intros m Hm.
-    assert (Hne : m <> n). { intros ->. destruct (W1 n Hm) as (_ & X). congruence. }
+  intros (A1 & B1 & C1 & D1 & E1) (A2 & B2 & C2 & D2 & E2).
+  split; [congruence|]. split; [congruence|]. split; [congruence|]. split.
+  - rewrite forwarded_app, <- app_assoc, D2. exact D1.
+  - destruct E2 as [E2|(F1 & F2 & F3 & F4)].
+    + destruct E1 as [E1|(G1 & G2 & G3 & G4)]; [left; congruence|right]. repeat split; congruence.
+    + destruct E1 as [E1|(G1 & G2 & G3 & G4)]; [right; repeat split; congruence|congruence].
+Qed.
+
+Lemma ctl_step_result n s s1 o rr : ctl_step n s s1 o -> ctl_step n s (set_result s1 rr) o.
+Proof. intros H. exact H. Qed.
+
+Lemma ctl_node s s1 d' o n :
+  WF s -> Rk (y_d s) d' -> y_d s1 = d' -> y_dead s1 = y_dead s ->
+  (forall q, alist_get [] q (y_up s1) = alist_get [] q (y_up s)) ->
+  (forall q, aget q (y_w s1) = aget q (y_w s) \/ (d_next_gw (y_d s) <= q /\ aget q (y_w s1) = Some w_init)) ->
+  forwarded n o ++ in_evq n (y_evq s1) = in_evq n (y_evq s) ->
+  ctl_step n s s1 o.
+Proof.
+  intros (W1 & W2 & W3) (_ & _ & _ & R4) D1 DD U K E.
+  assert (SD : sdn n s1 = sdn n s).
+  { unfold sdn. rewrite D1. destruct (R4 n) as [A|((A1 & A2) & A3)]; [exact A|]. rewrite A3, (W3 n A1). reflexivity. }
+  split; [apply U|]. split; [exact SD|]. split; [unfold dd; rewrite DD; reflexivity|]. split; [exact E|].
+  unfold wk. destruct (K n) as [A|(A1 & A2)]; [left; exact A|]. right.
+  destruct (W1 n A1) as (X & Y). repeat split; auto.
+  - unfold wire, alist_get. rewrite X. reflexivity.
+  - exact (W3 n A1).
+Qed.
+
+(* what Rk gives for the well-formedness of the new controller state *)
+Lemma Rk_wf s d' : WF s -> Rk (y_d s) d' ->
+  Inv d' /\ (forall m, d_next_gw d' <= m -> dn m d' = false) /\ d_next_gw (y_d s) <= d_next_gw d'.
+Proof.
+  intros (W1 & W2 & W3) (_ & R2 & R3 & R4). split; [auto|]. split; [|exact R3].
+  intros m Hm. destruct (R4 m) as [A|((A1 & A2) & A3)]; [|exact A3]. rewrite A. apply W3. lia.
+Qed.
+
+(* ---- worker steps ---- *)
+Lemma push_step c s n0 w0 w1 evs n :
+  WF s -> aget n0 (y_w s) = Some w0 -> mem_nat n0 (y_dead s) = false ->
+  (recv_step (c_oracle c n0) w0 = (w1, evs) \/ main_step (c_oracle c n0) w0 = Some (w1, evs)) ->
+  let s' := push_up (set_w s n0 w1) n0 (map (up_of_wevent c n0) evs) in
+  WF s' /\ node_step c n s s' [] (map (fun e => (n0, e)) evs).
+Proof.
+  intros (W1 & W2 & W3) Hw Hd Hs s'. subst s'. split.
+  - split; [|split; [exact W2|exact W3]]. cbn [push_up set_w y_d y_up y_w]. intros m Hm.
+    assert (Hne : m <> n0). { intros ->. destruct (W1 n0 Hm) as (_ & X). congruence. }
     rewrite !aget_aset_neq; auto.
-  - rewrite !in_up_eq. cbn [push_up set_w y_up].
-    destruct (Nat.eq_dec q n) as [->|Hne].
-    + rewrite alist_get_aset_eq, fm_app, produced_own. reflexivity.
-    + rewrite alist_get_aset_neq; [|exact Hne]. rewrite produced_other; [|exact Hne]. rewrite app_nil_r. reflexivity.
+  - destruct (Nat.eq_dec n n0) as [->|Hne].
+    + apply (NS_work c n0 s _ [] _ w0 w1 evs); try reflexivity; auto.
+      * unfold wk. cbn [push_up set_w y_w]. apply aget_aset_eq.
+      * unfold wire. cbn [push_up set_w y_up]. apply alist_get_aset_eq.
+    + apply NS_other; try reflexivity.
+      * unfold wire. cbn [push_up set_w y_up]. apply alist_get_aset_neq. exact Hne.
+      * apply nev_other. exact Hne.
+      * left. unfold wk. cbn [push_up set_w y_w]. apply aget_aset_neq. exact Hne.
 Qed.
 
-Lemma crash_step c s n w q :
-  WF s -> aget n (y_w s) = Some w ->
-  WF (crash_worker c s n) /\ y_evq (crash_worker c s n) = y_evq s /\ in_up q (crash_worker c s n) = in_up q s.
+Lemma deliver_step c s n0 w0 cmd rest n rr :
+  WF s -> aget n0 (y_w s) = Some w0 ->
+  let s' := {| y_d := y_d s; y_evq := y_evq s; y_down := aset n0 rest (y_down s); y_up := y_up s;
+               y_w := aset n0 (deliver w0 cmd) (y_w s); y_dead := y_dead s; y_result := rr |} in
+  WF s' /\ node_step c n s s' [] [].
 Proof.
-  intros (W1 & W2) Hw. split; [|split; [reflexivity|]].
-  - assert (KG : Rk (y_d s) (y_d (crash_worker c s n))).
-    { unfold crash_worker. cbn [y_d]. destruct (c_strict c); [|apply Rk_refl].
-      destruct (aget n (d_nt (y_d s))) as [f|] eqn:Ef; [|apply Rk_refl].
-      apply Rk_same; [|reflexivity]. unfold dkeys. rewrite d_nt_set. apply akeys_aset_in. eapply aget_some_in; eauto. }
-    assert (GW : d_next_gw (y_d (crash_worker c s n)) = d_next_gw (y_d s)).
-    { unfold crash_worker. cbn [y_d]. destruct (c_strict c); [|reflexivity].
-      destruct (aget n (d_nt (y_d s))); reflexivity. }
-    split; [|apply KG; exact W2]. rewrite GW. intros m Hm.
-    assert (Hne : m <> n). { intros ->. destruct (W1 n Hm) as (_ & X). congruence. }
-    unfold crash_worker. cbn [y_up y_w]. rewrite aget_aset_neq; auto.
-  - rewrite !in_up_eq. unfold crash_worker. cbn [y_up].
-    destruct (Nat.eq_dec q n) as [->|Hne].
-    + rewrite alist_get_aset_eq, fm_app. cbn. rewrite app_nil_r. reflexivity.
-    + rewrite alist_get_aset_neq; [reflexivity|exact Hne].
+  intros (W1 & W2 & W3) Hw s'. subst s'. split.
+  - split; [|split; [exact W2|exact W3]]. cbn [y_d y_up y_w]. intros m Hm.
+    assert (Hne : m <> n0). { intros ->. destruct (W1 n0 Hm) as (_ & X). congruence. }
+    rewrite aget_aset_neq; auto.
+  - apply NS_other; try reflexivity; [apply nev_nil|].
+    unfold wk. cbn [y_w]. destruct (Nat.eq_dec n n0) as [->|Hne].
+    + right. right. exists w0, cmd. split; [exact Hw|apply aget_aset_eq].
+    + left. apply aget_aset_neq. exact Hne.
+Qed.
+
+Lemma crash_d c s n0 :
+  dsig (y_d (crash_worker c s n0)) = dsig (y_d s) /\ d_next_gw (y_d (crash_worker c s n0)) = d_next_gw (y_d s).
+Proof.
+  unfold crash_worker. cbn [y_d]. destruct (c_strict c); [|split; reflexivity].
+  destruct (aget n0 (d_nt (y_d s))) as [f|] eqn:Ef; [|split; reflexivity].
+  split; [|reflexivity]. unfold dsig. rewrite d_nt_set.
+  apply (nsig_aset_same n0 _ _ (n_down f)); [rewrite aget_nsig, Ef; reflexivity|reflexivity].
+Qed.
+
+Lemma crash_step c s n0 w0 n :
+  WF s -> aget n0 (y_w s) = Some w0 -> mem_nat n0 (y_dead s) = false ->
+  WF (crash_worker c s n0) /\ node_step c n s (crash_worker c s n0) [] [].
+Proof.
+  intros (W1 & W2 & W3) Hw Hd. destruct (crash_d c s n0) as (S0 & G0).
+  assert (DNQ : forall q, dn q (y_d (crash_worker c s n0)) = dn q (y_d s)) by (apply dn_same_sig; exact S0).
+  split.
+  - split; [|split].
+    + rewrite G0. intros m Hm.
+      assert (Hne : m <> n0). { intros ->. destruct (W1 n0 Hm) as (_ & X). congruence. }
+      unfold crash_worker. cbn [y_up y_w]. rewrite aget_aset_neq; auto.
+    + intros m Hm. rewrite G0 in Hm. rewrite dkeys_dsig, S0, <- dkeys_dsig. apply W2. exact Hm.
+    + intros m Hm. rewrite G0 in Hm. rewrite DNQ. apply W3. exact Hm.
+  - destruct (Nat.eq_dec n n0) as [->|Hne].
+    + apply NS_crash; try reflexivity; auto.
+      * unfold dd, crash_worker. cbn [y_dead mem_nat existsb]. rewrite Nat.eqb_refl. reflexivity.
+      * unfold wire, crash_worker. cbn [y_up]. apply alist_get_aset_eq.
+      * unfold sdn. apply DNQ.
+    + apply NS_other; try reflexivity.
+      * unfold wire, crash_worker. cbn [y_up]. apply alist_get_aset_neq. exact Hne.
+      * unfold sdn. apply DNQ.
+      * unfold dd, crash_worker. cbn [y_dead mem_nat existsb].
+        destruct (Nat.eqb n n0) eqn:E; [apply Nat.eqb_eq in E; contradiction|reflexivity].
+      * apply nev_nil.
+      * left. reflexivity.
 Qed.
 
 Lemma close_if_dead_frame s n :
   y_evq (close_if_dead s n) = y_evq s /\ y_up (close_if_dead s n) = y_up s /\ y_w (close_if_dead s n) = y_w s /\
-  Rk (y_d s) (y_d (close_if_dead s n)) /\ d_next_gw (y_d (close_if_dead s n)) = d_next_gw (y_d s).
+  y_dead (close_if_dead s n) = y_dead s /\
+  dsig (y_d (close_if_dead s n)) = dsig (y_d s) /\ d_next_gw (y_d (close_if_dead s n)) = d_next_gw (y_d s).
 Proof.
-  unfold close_if_dead. destruct (mem_nat n (y_dead s)); [|repeat split; try apply Rk_refl; auto].
-  destruct (aget n (d_nt (y_d s))) as [f|] eqn:Ef; [|repeat split; try apply Rk_refl; auto].
-  destruct (n_down f); [|repeat split; try apply Rk_refl; auto].
-  cbn [set_d y_evq y_up y_w y_d]. repeat split; auto.
-  - intros k Hk. unfold dkeys. rewrite d_nt_set. apply akeys_aset_incl. exact Hk.
-  - intros I m Hm. unfold dkeys. rewrite d_nt_set. apply akeys_aset_incl. apply I. exact Hm.
+  unfold close_if_dead. destruct (mem_nat n (y_dead s)); [|repeat split; auto].
+  destruct (aget n (d_nt (y_d s))) as [f|] eqn:Ef; [|repeat split; auto].
+  destruct (n_down f) eqn:Edn; [|repeat split; auto].
+  cbn [set_d y_evq y_up y_w y_d y_dead]. repeat split; auto.
+  unfold dsig. rewrite d_nt_set.
+  apply (nsig_aset_same n _ _ true); [rewrite aget_nsig, Ef, <- Edn; reflexivity|reflexivity].
 Qed.
 
-Lemma in_up_ext n s s' : alist_get [] n (y_up s') = alist_get [] n (y_up s) -> in_up n s' = in_up n s.
-Proof. intros E. unfold in_up. rewrite E. reflexivity. Qed.
-
 (* ---- the controller's receiver thread takes the next message of worker n0 ---- *)
-Lemma recv_fifo s n0 m rest d' outs r n rr :
+Lemma recv_node c s n0 m rest d' outs r n rr :
   WF s -> aget n0 (y_up s) = Some (m :: rest) ->
   process_from_remote n0 m (y_d s) = (d', outs, r) ->
   let s1 := {| y_d := y_d s; y_evq := y_evq s; y_down := y_down s; y_up := aset n0 rest (y_up s);
                y_w := y_w s; y_dead := y_dead s; y_result := rr |} in
   let s2 := apply_outs (set_d s1 d') outs in
-  forwarded n outs = [] /\
-  match r with
-  | Ok evs => WF (close_if_dead (set_evq s2 (y_evq s2 ++ evs)) n0) /\
-              in_evq n (y_evq (close_if_dead (set_evq s2 (y_evq s2 ++ evs)) n0)) ++
-              in_up n (close_if_dead (set_evq s2 (y_evq s2 ++ evs)) n0) = in_evq n (y_evq s) ++ in_up n s
-  | Err e => WF s2 /\ in_evq n (y_evq s2) ++ in_up n s2 = in_evq n (y_evq s) ++ in_up n s
-  end.
+  exists evs, r = Ok evs /\
+    WF (close_if_dead (set_evq s2 (y_evq s2 ++ evs)) n0) /\
+    node_step c n s (close_if_dead (set_evq s2 (y_evq s2 ++ evs)) n0) outs [].
 Proof.
-  intros W Eu Ep s1 s2. pose proof W as (W1 & W2).
-  destruct (pfr_spec _ _ _ _ _ _ Ep) as (K & G & N & EV & ER).
+  intros W Eu Ep s1 s2. pose proof W as (W1 & W2 & W3).
+  destruct (WF_ctl s n0 W) as (Hlt & f & Ef); [left; rewrite Eu; discriminate|].
+  destruct (pfr_spec _ _ _ _ _ _ _ Ep Ef) as (K & G & N & DQ & DN & evs & -> & EV).
+  exists evs. split; [reflexivity|].
   assert (Ws1 : WF s1).
-  { split; [|exact W2]. subst s1. cbn [y_d y_up y_w]. intros m0 Hm.
-    assert (Hne : m0 <> n0). { intros ->. destruct (W1 n0 Hm) as (X & _). congruence. }
+  { split; [|split; [exact W2|exact W3]]. subst s1. cbn [y_d y_up y_w]. intros m0 Hm.
+    assert (Hne : m0 <> n0). { intros ->. lia. }
     rewrite aget_aset_neq; auto. }
-  assert (CM := ctl_move s1 d' outs Ws1).
-  destruct CM as (Ws2 & Q2 & D2 & U2).
-  { subst s1. cbn [y_d]. apply Rk_same; assumption. }
+  assert (I' : Inv d').
+  { intros m0 Hm. rewrite K. apply W2. rewrite <- G. exact Hm. }
+  assert (D' : forall m0, d_next_gw d' <= m0 -> dn m0 d' = false).
+  { intros m0 Hm. rewrite G in Hm. rewrite DQ; [apply W3; exact Hm|lia]. }
+  destruct (ctl_move s1 d' outs Ws1 I' D') as (Ws2 & Q2 & D2 & DD2 & U2 & _).
   { subst s1. cbn [y_d]. lia. }
   { intros id sp Hin. exfalso. exact (no_spawn_not_hook _ _ _ N Hin). }
-  fold s2 in Ws2, Q2, D2, U2.
+  fold s2 in Ws2, Q2, D2, DD2, U2.
+  assert (K2 : forall q, aget q (y_w s2) = aget q (y_w s)).
+  { intros q. destruct (apply_outs_w outs (set_d s1 d') q) as [A|((sp & A) & _)]; [exact A|].
+    exfalso. exact (no_spawn_not_hook _ _ _ N A). }
+  destruct (close_if_dead_frame (set_evq s2 (y_evq s2 ++ evs)) n0) as (F1 & F2 & F3 & F4 & F5 & F6).
+  cbn [set_evq y_evq y_up y_w y_d y_dead] in F1, F2, F3, F4, F5, F6.
+  set (s3 := close_if_dead (set_evq s2 (y_evq s2 ++ evs)) n0) in *.
+  assert (DN3 : forall q, dn q (y_d s3) = dn q d').
+  { intros q. rewrite (dn_same_sig _ _ F5 q), D2. reflexivity. }
   split.
-  { apply forwarded_noreport. eapply Forall_impl; [|exact N]. intros x. apply not_hook_noreport. }
-  assert (UP : flat_map rep_of_up (alist_get [] n (y_up s1)) =
-               if Nat.eqb n0 n then flat_map rep_of_up rest else in_up n s).
-  { subst s1. cbn [y_up]. destruct (Nat.eqb n0 n) eqn:E.
-    - apply Nat.eqb_eq in E. subst n. rewrite alist_get_aset_eq. reflexivity.
-    - rewrite alist_get_aset_neq; [reflexivity|]. intros ->. rewrite Nat.eqb_refl in E. discriminate. }
-  assert (US : in_up n s = if Nat.eqb n0 n then rep_of_up m ++ flat_map rep_of_up rest else in_up n s).
-  { destruct (Nat.eqb n0 n) eqn:E; [|reflexivity]. apply Nat.eqb_eq in E. subst n.
-    rewrite in_up_eq. unfold alist_get. rewrite Eu. reflexivity. }
-  destruct r as [evs|e].
-  - destruct (close_if_dead_frame (set_evq s2 (y_evq s2 ++ evs)) n0) as (F1 & F2 & F3 & F4 & F5).
-    cbn [set_evq y_evq y_up y_w y_d] in F1, F2, F3, F4, F5.
-    split.
-    + destruct Ws2 as (A1 & A2). split.
-      * rewrite F5, F2, F3. exact A1.
-      * apply F4. exact A2.
-    + rewrite (in_up_eq n (close_if_dead _ _)), F2, U2, UP, US.
-      rewrite F1, Q2. subst s1. cbn [y_evq]. rewrite in_evq_app, (EV evs eq_refl n).
-      destruct (Nat.eqb n0 n); rewrite <- ?app_assoc, ?app_nil_r; reflexivity.
-  - split; [exact Ws2|].
-    rewrite Q2. subst s1. cbn [y_evq]. rewrite (in_up_eq n s2), U2, UP, US.
-    assert (Hin : aget n0 (d_nt (y_d s)) <> None).
-    { apply aget_in_akeys. apply W2. destruct (le_lt_dec (d_next_gw (y_d s)) n0) as [Hle|Hlt]; [|exact Hlt].
-      destruct (W1 n0 Hle) as (X & _). congruence. }
-    rewrite (ER e eq_refl Hin). destruct (Nat.eqb n0 n); reflexivity.
+  - destruct Ws2 as (A1 & A2 & A3). split; [|split].
+    + rewrite F6, F2, F3. exact A1.
+    + intros m0 Hm. rewrite F6 in Hm. rewrite dkeys_dsig, F5, <- dkeys_dsig. apply A2. exact Hm.
+    + intros m0 Hm. rewrite F6 in Hm. rewrite (dn_same_sig _ _ F5 m0). apply A3. exact Hm.
+  - assert (FW : forwarded n outs = []).
+    { apply forwarded_noreport. eapply Forall_impl; [|exact N]. intros x. apply not_hook_noreport. }
+    assert (EQ : in_evq n (y_evq s3) = in_evq n (y_evq s) ++ in_evq n evs).
+    { rewrite F1, Q2, in_evq_app. reflexivity. }
+    destruct (Nat.eq_dec n n0) as [->|Hne].
+    + apply (NS_recv c n0 s s3 outs [] m rest); auto.
+      * unfold wire, alist_get. rewrite Eu. reflexivity.
+      * unfold wire. rewrite F2, U2. subst s1. cbn [y_up]. apply alist_get_aset_eq.
+      * unfold sdn. rewrite DN3, DN. unfold dn. rewrite Ef. reflexivity.
+      * unfold wk. rewrite F3. apply K2.
+      * unfold dd. rewrite F4, DD2. reflexivity.
+      * rewrite EQ, (EV n0), Nat.eqb_refl. unfold sdn, dn. rewrite Ef. reflexivity.
+    + apply NS_other.
+      * unfold wire. rewrite F2, U2. subst s1. cbn [y_up]. apply alist_get_aset_neq. exact Hne.
+      * unfold sdn. rewrite DN3. apply DQ. exact Hne.
+      * unfold dd. rewrite F4, DD2. reflexivity.
+      * apply nev_nil.
+      * rewrite FW, EQ, (EV n). destruct (Nat.eqb n0 n) eqn:E; [apply Nat.eqb_eq in E; congruence|].
+        rewrite app_nil_r. reflexivity.
+      * left. unfold wk. rewrite F3. apply K2.
 Qed.
 
 (* ---- the controller main loop handles one event ---- *)
 Lemma ctl_fifo s ev q d' outs r n :
   WF s -> y_evq s = ev :: q -> d_loop_once ev (y_d s) = (d', outs, r) ->
   let s1 := apply_outs (set_d (set_evq s q) d') outs in
-  WF s1 /\ y_d s1 = d' /\
-  forwarded n outs ++ in_evq n (y_evq s1) ++ in_up n s1 = in_evq n (y_evq s) ++ in_up n s.
+  WF s1 /\ y_d s1 = d' /\ ctl_step n s s1 outs.
 Proof.
   intros W Eq El s1.
   destruct (loop_once_fifo _ _ _ _ _ n El) as (R1 & F1).
   destruct (step_rel_spawn _ _ _ (loop_once_step _ _ _ _ _ El)) as (G & SP).
+  destruct (Rk_wf s d' W R1) as (I' & D' & _).
   assert (W0 : WF (set_evq s q)) by (apply (WF_ext s); auto).
-  destruct (ctl_move (set_evq s q) d' outs W0 R1 G SP) as (Ws1 & Q1 & D1 & U1).
-  fold s1 in Ws1, Q1, D1, U1. cbn [set_evq y_evq y_up] in Q1, U1.
+  destruct (ctl_move (set_evq s q) d' outs W0 I' D' G SP) as (Ws1 & Q1 & D1 & DD1 & U1 & K1).
+  fold s1 in Ws1, Q1, D1, DD1, U1, K1. cbn [set_evq y_evq y_up y_w y_d y_dead] in Q1, DD1, U1, K1.
   split; [exact Ws1|]. split; [exact D1|].
-  rewrite F1, Q1, Eq, in_evq_cons, (in_up_ext n s s1 (U1 n)), <- app_assoc. reflexivity.
+  apply (ctl_node s s1 d' outs n W R1 D1 DD1 U1 K1).
+  rewrite F1, Q1, Eq. reflexivity.
 Qed.
 
 Lemma noactive_fifo s d' outs r n :
   WF s -> d_no_active (y_d s) = (d', outs, r) ->
   let s1 := apply_outs (set_d s d') outs in
-  WF s1 /\ forwarded n outs = [] /\ y_evq s1 = y_evq s /\ in_up n s1 = in_up n s.
+  WF s1 /\ y_d s1 = d' /\ ctl_step n s s1 outs.
 Proof.
   intros W En s1.
   destruct (r_no_active _ _ _ _ En) as (R1 & N1).
   destruct (step_rel_spawn _ _ _ (quiet_step _ _ _ _ _ quiet_no_active En)) as (G & SP).
-  destruct (ctl_move s d' outs W R1 G SP) as (Ws1 & Q1 & D1 & U1).
-  fold s1 in Ws1, Q1, D1, U1.
-  split; [exact Ws1|]. split; [apply forwarded_noreport; exact N1|]. split; [exact Q1|].
-  apply in_up_ext. apply U1.
+  destruct (Rk_wf s d' W R1) as (I' & D' & _).
+  destruct (ctl_move s d' outs W I' D' G SP) as (Ws1 & Q1 & D1 & DD1 & U1 & K1).
+  fold s1 in Ws1, Q1, D1, DD1, U1, K1.
+  split; [exact Ws1|]. split; [exact D1|].
+  apply (ctl_node s s1 d' outs n W R1 D1 DD1 U1 K1).
+  rewrite (forwarded_noreport n outs N1), Q1. reflexivity.
 Qed.
 
-(* ---- the one-step lemma, from an arbitrary well-formed state ---- *)
+(* ---- one step of the system, seen from worker n, from an arbitrary well-formed state ---- *)
 Ltac fin3 H a b c := injection H as Hs_ Ho_ Hw_; subst a b c.
-Lemma step_fifo c s l s' o w n :
-  WF s -> sys_step c s l = Some (s', o, w) ->
-  WF s' /\
-  forwarded n o ++ in_evq n (y_evq s') ++ in_up n s' = in_evq n (y_evq s) ++ in_up n s ++ produced n w.
+Lemma step_node c s l s' o w n :
+  WF s -> sys_step c s l = Some (s', o, w) -> WF s' /\ node_step c n s s' o w.
 Proof.
   intros W H. unfold sys_step in H. destruct (y_result s) eqn:Er; [discriminate|].
   destruct l as [n0|n0|n0|n0| |n0].
@@ -960,72 +1419,259 @@ Proof.
     destruct (mem_nat n0 (y_dead s)); [discriminate|].
     destruct (aget n0 (y_down s)) as [[|cmd rest]|]; try discriminate.
     destruct (aget n0 (y_w s)) as [w0|] eqn:Ew; try discriminate.
-    fin3 H s' o w. split.
-    + destruct W as (W1 & W2). split; [|exact W2]. cbn [y_d y_up y_w]. intros m Hm.
-      assert (Hne : m <> n0). { intros ->. destruct (W1 n0 Hm) as (_ & X). congruence. }
-      rewrite aget_aset_neq; auto.
-    + cbn [y_evq]. unfold in_up. cbn [y_up]. rewrite app_nil_r. reflexivity.
+    fin3 H s' o w. exact (deliver_step c s n0 w0 cmd rest n None W Ew).
   - (* LRecvW *)
-    destruct (mem_nat n0 (y_dead s)); [discriminate|].
+    destruct (mem_nat n0 (y_dead s)) eqn:Ed; [discriminate|].
     destruct (aget n0 (y_w s)) as [w0|] eqn:Ew; try discriminate.
     destruct (negb (wcb w0)); [discriminate|].
-    destruct (recv_step (c_oracle c n0) w0) as [w' evs]. fin3 H s' o w.
-    destruct (push_step c s n0 w0 w' evs n W Ew) as (W' & E' & U').
-    split; [exact W'|]. rewrite E', U'. reflexivity.
+    destruct (recv_step (c_oracle c n0) w0) as [w' evs] eqn:Es. fin3 H s' o w.
+    exact (push_step c s n0 w0 w' evs n W Ew Ed (or_introl Es)).
   - (* LMain *)
-    destruct (mem_nat n0 (y_dead s)); [discriminate|].
+    destruct (mem_nat n0 (y_dead s)) eqn:Ed; [discriminate|].
     destruct (aget n0 (y_w s)) as [w0|] eqn:Ew; try discriminate.
     destruct (dies_now c n0 w0).
-    + fin3 H s' o w. destruct (crash_step c s n0 w0 n W Ew) as (W' & E' & U').
-      split; [exact W'|]. rewrite E', U', app_nil_r. reflexivity.
-    + destruct (main_step (c_oracle c n0) w0) as [[w' evs]|]; [|discriminate]. fin3 H s' o w.
-      destruct (push_step c s n0 w0 w' evs n W Ew) as (W' & E' & U').
-      split; [exact W'|]. rewrite E', U'. reflexivity.
+    + fin3 H s' o w. exact (crash_step c s n0 w0 n W Ew Ed).
+    + destruct (main_step (c_oracle c n0) w0) as [[w' evs]|] eqn:Es; [|discriminate]. fin3 H s' o w.
+      exact (push_step c s n0 w0 w' evs n W Ew Ed (or_intror Es)).
   - (* LRecv *)
     destruct (aget n0 (y_up s)) as [[|m rest]|] eqn:Eu; try discriminate.
     cbn [y_d] in H.
     destruct (process_from_remote n0 m (y_d s)) as [[d' outs] r] eqn:Ep.
-    pose proof (recv_fifo s n0 m rest d' outs r n None W Eu Ep) as RF. cbv zeta in RF.
-    destruct RF as (F0 & RF).
-    destruct r as [evs|e]; fin3 H s' o w; destruct RF as (W' & E'); (split; [exact W'|]).
-    + rewrite F0, app_nil_r. cbn [app]. exact E'.
-    + rewrite F0, app_nil_r. cbn [app]. exact E'.
+    pose proof (recv_node c s n0 m rest d' outs r n None W Eu Ep) as RF. cbv zeta in RF.
+    destruct RF as (evs & -> & W' & NS). fin3 H s' o w. split; assumption.
   - (* LCtl *)
     destruct (d_active (y_d s)) as [|a0 ar] eqn:Ea.
     + destruct (d_no_active (y_d s)) as [[d' outs] r0] eqn:En. fin3 H s' o w.
-      destruct (noactive_fifo s d' outs r0 n W En) as (W' & F' & Q' & U'). cbv zeta in W', Q', U'.
+      destruct (noactive_fifo s d' outs r0 n W En) as (W' & D' & CS). cbv zeta in W', D', CS.
       split; [apply (WF_ext (apply_outs (set_d s d') outs)); auto|].
-      rewrite F', app_nil_r. cbn [app set_result y_evq]. rewrite Q'.
-      rewrite (in_up_ext n (apply_outs (set_d s d') outs) (set_result _ _)); [|reflexivity].
-      rewrite U'. reflexivity.
+      apply ctl_step_ns. apply ctl_step_result. exact CS.
     + destruct (y_evq s) as [|ev q] eqn:Eq; [discriminate|].
       destruct (d_loop_once ev (y_d s)) as [[d' outs] r] eqn:El.
-      destruct (ctl_fifo s ev q d' outs r n W Eq El) as (W1 & D1 & E1). cbv zeta in W1, D1, E1.
-      rewrite Eq in E1.
+      destruct (ctl_fifo s ev q d' outs r n W Eq El) as (W1 & D1 & CS). cbv zeta in W1, D1, CS.
       set (s1 := apply_outs (set_d (set_evq s q) d') outs) in *.
-      assert (RES : forall rr, WF (set_result s1 rr) /\
-                forwarded n outs ++ in_evq n (y_evq (set_result s1 rr)) ++ in_up n (set_result s1 rr) =
-                in_evq n (ev :: q) ++ in_up n s ++ produced n []).
-      { intros rr. split; [apply (WF_ext s1); auto|]. rewrite app_nil_r. exact E1. }
+      assert (RES : forall rr, WF (set_result s1 rr) /\ node_step c n s (set_result s1 rr) outs []).
+      { intros rr. split; [apply (WF_ext s1); auto|]. apply ctl_step_ns, ctl_step_result. exact CS. }
       destruct r as [[]|e].
       * destruct (d_session_finished d'); [fin3 H s' o w; apply RES|].
         destruct (d_active d') as [|b0 br] eqn:Ea'.
         -- destruct (d_no_active d') as [[d2 outs2] r2] eqn:En. fin3 H s' o w.
            rewrite <- D1 in En.
-           destruct (noactive_fifo s1 d2 outs2 r2 n W1 En) as (W' & F' & Q' & U'). cbv zeta in W', Q', U'.
+           destruct (noactive_fifo s1 d2 outs2 r2 n W1 En) as (W' & D' & CS'). cbv zeta in W', D', CS'.
            split; [apply (WF_ext (apply_outs (set_d s1 d2) outs2)); auto|].
-           rewrite forwarded_app, F', !app_nil_r. cbn [set_result y_evq]. rewrite Q'.
-           rewrite (in_up_ext n (apply_outs (set_d s1 d2) outs2) (set_result _ _)); [|reflexivity].
-           rewrite U'. exact E1.
-        -- fin3 H s' o w. split; [exact W1|]. rewrite app_nil_r. exact E1.
+           apply ctl_step_ns, ctl_step_result. exact (ctl_step_trans _ _ _ _ _ _ CS CS').
+        -- fin3 H s' o w. split; [exact W1|]. apply ctl_step_ns. exact CS.
       * fin3 H s' o w. apply RES.
   - (* LCrash *)
-    destruct (mem_nat n0 (y_dead s)); [discriminate|].
+    destruct (mem_nat n0 (y_dead s)) eqn:Ed; [discriminate|].
     destruct (aget n0 (y_w s)) as [w0|] eqn:Ew; try discriminate.
-    destruct (crash_step c s n0 w0 n W Ew) as (W' & E' & U').
-    destruct (wph w0); try discriminate; fin3 H s' o w;
-      (split; [exact W'|]); rewrite E', U', app_nil_r; reflexivity.
+    destruct (crash_step c s n0 w0 n W Ew Ed) as (W' & NS).
+    destruct (wph w0); try discriminate; fin3 H s' o w; split; assumption.
 Qed.
+
+(* the one-step lemma of the property, from an arbitrary well-formed state *)
+Lemma step_fifo c s l s' o w n :
+  WF s -> sys_step c s l = Some (s', o, w) ->
+  WF s' /\
+  forwarded n o ++ in_evq n (y_evq s') ++ in_up_heard n s' =
+  in_evq n (y_evq s) ++ in_up_heard n s ++ (if cut_state n s then [] else audible n w).
+Proof.
+  intros W H. destruct (step_node c s l s' o w n W H) as (W' & NS).
+  split; [exact W'|]. exact (ns_equation _ _ _ _ _ _ NS).
+Qed.
+
+(* ====================================================================================== *)
+(* Part E: the worker side — after workerfinished a worker sends nothing, and a worker     *)
+(* that sent no garbled report is written off only when it is gone                          *)
+(* ====================================================================================== *)
+Lemma recv_next_ph o inbox : forall w, wph (recv_next o w inbox) = wph w.
+Proof.
+  induction inbox as [|cm r IH]; intros w; cbn [recv_next]; [reflexivity|].
+  destruct cm as [[|i ixs]| |s| |]; try reflexivity; try apply IH.
+  - destruct (seq 0 (ncollected o)); [apply IH|reflexivity].
+  - unfold w_steal. destruct (steal_q (wq w) s). reflexivity.
+Qed.
+
+(* the worker's receiver thread: the phase of the main thread is untouched, the only event it
+   sends is 'unscheduled' *)
+Lemma recv_step_facts o w0 w1 evs :
+  recv_step o w0 = (w1, evs) -> wph w1 = wph w0 /\ (evs = [] \/ exists ixs, evs = [EUnscheduled ixs]).
+Proof.
+  unfold recv_step. destruct (negb (wcb w0)); [intros H; inversion H; subst; auto|].
+  assert (EV : (match wreply w0 with Some ixs => [EUnscheduled ixs] | None => [] end = [] \/
+                exists ixs, match wreply w0 with Some ixs => [EUnscheduled ixs] | None => [] end = [EUnscheduled ixs])).
+  { destruct (wreply w0); [right; eexists; reflexivity|left; reflexivity]. }
+  cbn [upd_recv wrpend winbox].
+  destruct (wrpend w0) as [|it rest]; intros H; inversion H; subst; split; auto.
+  rewrite recv_next_ph. reflexivity.
+Qed.
+
+Definition nofin_script (w : wst) : Prop :=
+  match wph w with PRun _ _ sc => Forall (fun e => is_fin e = false) sc | _ => True end.
+
+Lemma nofin_ph a b : wph a = wph b -> nofin_script b -> nofin_script a.
+Proof. unfold nofin_script. intros ->. auto. Qed.
+
+Lemma script_of_nofin o i : Forall (fun e => is_fin e = false) (tl (script_of o i)).
+Proof.
+  unfold script_of. cbn [app tl]. apply Forall_app. split; [|repeat constructor].
+  apply Forall_forall. intros e Hin. apply in_map_iff in Hin. destruct Hin as (p & <- & _). reflexivity.
+Qed.
+
+(* the worker's main thread: at most one event per step; workerfinished is its last one *)
+Lemma main_step_facts o w0 w1 evs :
+  main_step o w0 = Some (w1, evs) -> nofin_script w0 ->
+  nofin_script w1 /\ wph w0 <> PExited /\
+  (evs = [] \/ exists e, evs = [e] /\ (is_fin e = true -> wph w1 = PExited)).
+Proof.
+  unfold main_step, nofin_script. destruct (wph w0) as [|rest| | |cur|cur nxt|cur nxt script|s|] eqn:P; intros H NF.
+  - inversion H; subst. cbn. repeat split; try discriminate. right. eexists. split; [reflexivity|discriminate].
+  - destruct rest as [|[k f] rest]; inversion H; subst; cbn; repeat split; try discriminate;
+      right; eexists; (split; [reflexivity|discriminate]).
+  - inversion H; subst. cbn. repeat split; try discriminate. right. eexists. split; [reflexivity|discriminate].
+  - destruct (wq w0) as [|[t [i|]] q'].
+    + destruct (wcb w0); [discriminate|]. inversion H; subst. cbn. rewrite P. repeat split; try discriminate. left; reflexivity.
+    + inversion H; subst. cbn. repeat split; try discriminate. left; reflexivity.
+    + inversion H; subst. cbn. repeat split; try discriminate. left; reflexivity.
+  - destruct (wq w0) as [|nxt q']; [discriminate|]. inversion H; subst. cbn. repeat split; try discriminate. left; reflexivity.
+  - inversion H; subst. cbn. split; [apply script_of_nofin|]. split; [discriminate|].
+    right. eexists. split; [reflexivity|discriminate].
+  - destruct script as [|e script].
+    + inversion H; subst. cbn. split.
+      { destruct (stops_after o (snd cur)); [exact I|]. destruct (snd nxt); exact I. }
+      split; [discriminate|]. right. eexists. split; [reflexivity|discriminate].
+    + inversion H; subst. cbn. inversion NF as [|e' sc' Fe Fs]; subst.
+      split; [exact Fs|]. split; [discriminate|]. right. exists e. split; [reflexivity|].
+      intros E. rewrite E in Fe. discriminate.
+  - inversion H; subst. cbn. repeat split; try discriminate. right. eexists. split; [reflexivity|reflexivity].
+  - discriminate.
+Qed.
+
+(* one step of a worker: at most one event; a garbled report aside, a cut event is workerfinished,
+   after which the process has exited *)
+Lemma wstep_facts c n w0 w1 evs :
+  (recv_step (c_oracle c n) w0 = (w1, evs) \/ main_step (c_oracle c n) w0 = Some (w1, evs)) ->
+  nofin_script w0 ->
+  nofin_script w1 /\
+  (wph w0 = PExited -> wph w1 = PExited /\ (evs = [] \/ exists ixs, evs = [EUnscheduled ixs])) /\
+  (evs = [] \/ exists e, evs = [e] /\ (is_fin e = true -> wph w1 = PExited)).
+Proof.
+  intros [H|H] NF.
+  - destruct (recv_step_facts _ _ _ _ H) as (P & E). split; [eapply nofin_ph; eauto|]. split.
+    + intros X. split; [congruence|exact E].
+    + destruct E as [->|(ixs & ->)]; [left; reflexivity|right]. eexists. split; [reflexivity|discriminate].
+  - destruct (main_step_facts _ _ _ _ H NF) as (A & B & C). split; [exact A|]. split; [contradiction|exact C].
+Qed.
+
+(* a list of at most one event, none garbled *)
+Lemma small_facts c n evs :
+  (evs = [] \/ exists e, evs = [e]) -> garbled n (map (fun e => (n, e)) evs) = false ->
+  flat_map rep_of_up (map (up_of_wevent c n) evs) = heard_wire (map (up_of_wevent c n) evs) /\
+  produced n (map (fun e => (n, e)) evs) = audible n (map (fun e => (n, e)) evs) /\
+  flat_map rep_of_up (map (up_of_wevent c n) evs) = produced n (map (fun e => (n, e)) evs).
+Proof.
+  intros [->|(e & ->)] G; [repeat split; reflexivity|].
+  unfold garbled in G. cbn [map existsb fst snd] in G. rewrite Nat.eqb_refl in G. cbn [andb] in G.
+  rewrite orb_false_r in G.
+  cbn [map flat_map heard_wire audible]. rewrite produced_cons, Nat.eqb_refl, cut_up. unfold cut_ev. rewrite G.
+  cbn [orb produced flat_map]. rewrite !app_nil_r.
+  destruct e; try (repeat split; reflexivity). destruct oc; try (repeat split; reflexivity). discriminate.
+Qed.
+
+(* worker n will not send anything but 'unscheduled' any more *)
+Definition silent (n : nat) (s : sys) : Prop :=
+  dd n s = true \/ exists w0, wk n s = Some w0 /\ wph w0 = PExited.
+
+Lemma ns_silent c n s s' o w :
+  node_step c n s s' o w -> silent n s ->
+  silent n s' /\ produced n w = [] /\ audible n w = [] /\ has_cut n w = false.
+Proof.
+  intros [Hw Hd Hdd Hn He Hk|w0 w1 evs Hdd Hk Hk' Hs -> Hw Hd Hdd' -> He|Hdd Hdd' Hw Hd Hk -> -> He
+         |m rest Hw Hw' Hd Hk Hdd -> Ho He] S.
+  - destruct (nev_facts _ _ Hn) as (A & B & _ & C & _). split; [|auto].
+    destruct S as [S|(w0 & S1 & S2)]; [left; congruence|].
+    destruct Hk as [Hk|[(Hk & _)|(w0' & cmd & Hk1 & Hk2)]].
+    + right. exists w0. split; [congruence|exact S2].
+    + congruence.
+    + right. exists (deliver w0' cmd). split; [exact Hk2|]. rewrite Hk1 in S1. inversion S1; subst. exact S2.
+  - destruct S as [S|(w0' & S1 & S2)]; [congruence|]. rewrite Hk in S1. inversion S1; subst w0'.
+    destruct Hs as [Hs|Hs].
+    + destruct (recv_step_facts _ _ _ _ Hs) as (P & E). split.
+      * right. exists w1. split; [exact Hk'|congruence].
+      * destruct E as [->|(ixs & ->)]; repeat split; try reflexivity.
+        all: unfold has_cut; cbn; rewrite Nat.eqb_refl; reflexivity.
+    + exfalso. unfold main_step in Hs. rewrite S2 in Hs. discriminate.
+  - split; [left; exact Hdd'|]. repeat split; reflexivity.
+  - split; [|repeat split; reflexivity]. destruct S as [S|(w0 & S1 & S2)]; [left; congruence|].
+    right. exists w0. split; [congruence|exact S2].
+Qed.
+
+(* the invariant of a worker that has not sent a garbled report: it is written off only when it
+   is silent, and no report of it is on its wire behind a cut *)
+Definition SI (n : nat) (s : sys) : Prop :=
+  (forall w0, wk n s = Some w0 -> nofin_script w0) /\
+  (cut_state n s = true -> silent n s) /\
+  in_up n s = in_up_heard n s.
+
+Lemma ns_si c n s s' o w :
+  node_step c n s s' o w -> garbled n w = false -> SI n s ->
+  SI n s' /\ produced n w = (if cut_state n s then [] else audible n w).
+Proof.
+  intros NS G (S1 & S3 & S4).
+  destruct (ns_cut _ _ _ _ _ _ NS) as (F1 & F2 & F3 & F4).
+  (* the written-off-only-when-silent part, up to the case of a cut event in this step *)
+  assert (S3' : (has_cut n w = true -> silent n s') -> cut_state n s' = true -> silent n s').
+  { intros HC C'. destruct (F3 C') as [C|[C|C]].
+    - exact (proj1 (ns_silent _ _ _ _ _ _ NS (S3 C))).
+    - exact (HC C).
+    - left. exact C. }
+  rewrite in_up_wire in S4. unfold in_up_heard in S4.
+  destruct NS as [Hw Hd Hdd Hn He Hk|w0 w1 evs Hdd Hk Hk' Hs -> Hw Hd Hdd' -> He|Hdd Hdd' Hw Hd Hk -> -> He
+         |m rest Hw Hw' Hd Hk Hdd -> Ho He].
+  - destruct (nev_facts _ _ Hn) as (A & B & _ & C & _). split; [|rewrite A, B; destruct (cut_state n s); reflexivity].
+    split; [|split].
+    + intros w0 E. destruct Hk as [Hk|[(_ & Hk & _)|(w0' & cmd & Hk1 & Hk2)]].
+      * apply S1. congruence.
+      * rewrite Hk in E. inversion E; subst. exact I.
+      * rewrite Hk2 in E. inversion E; subst. apply (nofin_ph _ w0'); [reflexivity|]. apply S1. exact Hk1.
+    + apply S3'. rewrite C. discriminate.
+    + rewrite in_up_wire. unfold in_up_heard. rewrite Hw, Hd. exact S4.
+  - pose proof (S1 _ Hk) as NF.
+    destruct (wstep_facts c n w0 w1 evs Hs NF) as (NF1 & EX & SM).
+    assert (SM' : evs = [] \/ exists e, evs = [e]).
+    { destruct SM as [->|(e & -> & _)]; [left; reflexivity|right; eexists; reflexivity]. }
+    destruct (small_facts c n evs SM' G) as (R1 & R2 & R3).
+    assert (PR : produced n (map (fun e => (n, e)) evs) =
+                 (if cut_state n s then [] else audible n (map (fun e => (n, e)) evs))).
+    { destruct (cut_state n s) eqn:C; [|exact R2].
+      exact (proj1 (proj2 (ns_silent _ _ _ _ _ _ (NS_work c n s s' [] _ w0 w1 evs Hdd Hk Hk' Hs eq_refl Hw Hd Hdd' eq_refl He) (S3 eq_refl)))). }
+    split; [|exact PR]. split; [|split].
+    + intros w0' E. rewrite Hk' in E. inversion E; subst. exact NF1.
+    + apply S3'. intros HC. right. exists w1. split; [exact Hk'|].
+      destruct SM as [->|(e & -> & FN)]; [discriminate|]. apply FN.
+      unfold has_cut in HC. cbn [map existsb fst snd] in HC. rewrite Nat.eqb_refl, orb_false_r in HC. cbn [andb] in HC.
+      unfold garbled in G. cbn [map existsb fst snd] in G. rewrite Nat.eqb_refl, orb_false_r in G. cbn [andb] in G.
+      unfold cut_ev in HC. rewrite G in HC. exact HC.
+    + rewrite in_up_wire. unfold in_up_heard. rewrite Hw, Hd, fm_app, heard_wire_app, S4, R3, PR, <- R2, <- R3, R1. unfold cut_state.
+      destruct (sdn n s); cbn [orb]; [reflexivity|].
+      destruct (existsb cut_msg (wire n s)); reflexivity.
+  - split; [|destruct (cut_state n s); reflexivity]. split; [|split].
+    + intros w0 E. apply S1. congruence.
+    + intros _. left. exact Hdd'.
+    + rewrite in_up_wire. unfold in_up_heard. rewrite Hw, Hd, fm_app, heard_wire_app, S4. cbn [flat_map heard_wire cut_msg rep_of_up app].
+      destruct (sdn n s); [reflexivity|]. destruct (existsb cut_msg (wire n s)); reflexivity.
+  - split; [|destruct (cut_state n s); reflexivity]. split; [|split].
+    + intros w0 E. apply S1. congruence.
+    + apply S3'. discriminate.
+    + rewrite in_up_wire. unfold in_up_heard. rewrite Hw', Hd. rewrite Hw in S4. cbn [flat_map heard_wire] in S4.
+      destruct (sdn n s); cbn [orb].
+      * apply app_eq_nil in S4. exact (proj2 S4).
+      * destruct (cut_msg m); [apply app_eq_nil in S4; exact (proj2 S4)|].
+        apply app_inv_head in S4. exact S4.
+Qed.
+
+(* ====================================================================================== *)
+(* Part F: every schedule                                                                  *)
+(* ====================================================================================== *)
 
 (* ---- the initial state is well formed and has nothing in flight ---- *)
 Lemma aget_map_seq_none {V} (f : nat -> V) N : forall a m,
@@ -1045,50 +1691,225 @@ Proof.
   cbn [map aget]. destruct (Nat.eqb n k); [reflexivity|exact IH].
 Qed.
 
+Lemma aget_map_seq_const {V} (v : V) l n x : aget n (map (fun k => (k, v)) l) = Some x -> x = v.
+Proof.
+  induction l as [|k l IH]; cbn; [discriminate|].
+  destruct (Nat.eqb n k); [intros E; inversion E; reflexivity|exact IH].
+Qed.
+
+Lemma dn_init c m : dn m (y_d (sys_init c)) = false.
+Proof.
+  unfold dn, d_nt. cbn [sys_init y_d d_sched]. rewrite s_nt_set. unfold init_nt.
+  induction (seq 0 (c_numnodes c)) as [|a l IH]; cbn; [reflexivity|].
+  destruct (Nat.eqb m a); [reflexivity|exact IH].
+Qed.
+
 Lemma WF_init c : WF (sys_init c).
 Proof.
-  split.
+  split; [|split].
   - cbn [sys_init y_d y_up y_w d_next_gw]. intros m Hm. split.
     + apply (aget_map_seq_none (fun _ => [])). lia.
     + apply (aget_map_seq_none (fun _ => w_init)). lia.
   - intros m Hm. cbn [sys_init y_d d_next_gw] in Hm. unfold dkeys, d_nt. cbn [sys_init y_d d_sched].
     rewrite s_nt_set. unfold init_nt. rewrite (akeys_map_seq (fun n => {| n_spec := c_spec c n; n_down := false;
       n_sdsent := false; n_closed := false |})). apply in_seq. lia.
+  - intros m _. apply dn_init.
 Qed.
 
-Lemma init_nothing_in_flight c n : in_evq n (y_evq (sys_init c)) = [] /\ in_up n (sys_init c) = [].
+Lemma init_nothing_in_flight c n :
+  in_evq n (y_evq (sys_init c)) = [] /\ in_up n (sys_init c) = [] /\
+  in_up_heard n (sys_init c) = [] /\ cut_state n (sys_init c) = false.
 Proof.
-  split; [reflexivity|]. unfold in_up. cbn [sys_init y_up]. rewrite alist_get_map_nil. reflexivity.
+  assert (Wn : wire n (sys_init c) = []).
+  { unfold wire. cbn [sys_init y_up]. apply alist_get_map_nil. }
+  split; [reflexivity|]. split; [rewrite in_up_wire, Wn; reflexivity|].
+  unfold in_up_heard, cut_state, sdn. rewrite dn_init, Wn. split; reflexivity.
+Qed.
+
+Lemma SI_init c n : SI n (sys_init c).
+Proof.
+  destruct (init_nothing_in_flight c n) as (_ & A & B & C). split; [|split].
+  - intros w0 E. unfold wk in E. cbn [sys_init y_w] in E. apply aget_map_seq_const in E. subst w0. exact I.
+  - rewrite C. discriminate.
+  - rewrite A, B. reflexivity.
 Qed.
 
 (* ---- any schedule from any well-formed state ---- *)
+Lemma exec_dead c n ls : forall s s2 o w,
+  WF s -> dd n s = true -> sys_exec c s ls = (s2, o, w) -> nev n w.
+Proof.
+  induction ls as [|l ls IH]; intros s s2 o w W D H; cbn [sys_exec] in H.
+  - inversion H; subst. apply nev_nil.
+  - destruct (sys_step c s l) as [[[s1 o1] w1]|] eqn:E1; [|apply (IH _ _ _ _ W D H)].
+    destruct (sys_exec c s1 ls) as [[s3 o3] w3] eqn:E2. inversion H; subst. clear H.
+    destruct (step_node _ _ _ _ _ _ n W E1) as (W1 & NS).
+    destruct (ns_cut _ _ _ _ _ _ NS) as (_ & _ & _ & F4). destruct (F4 D) as (D1 & N1).
+    apply nev_app; [exact N1|]. exact (IH _ _ _ _ W1 D1 E2).
+Qed.
+
+Lemma exec_silent c n ls : forall s s2 o w,
+  WF s -> silent n s -> sys_exec c s ls = (s2, o, w) -> produced n w = [].
+Proof.
+  induction ls as [|l ls IH]; intros s s2 o w W D H; cbn [sys_exec] in H.
+  - inversion H; subst. reflexivity.
+  - destruct (sys_step c s l) as [[[s1 o1] w1]|] eqn:E1; [|apply (IH _ _ _ _ W D H)].
+    destruct (sys_exec c s1 ls) as [[s3 o3] w3] eqn:E2. inversion H; subst. clear H.
+    destruct (step_node _ _ _ _ _ _ n W E1) as (W1 & NS).
+    destruct (ns_silent _ _ _ _ _ _ NS D) as (D1 & P1 & _).
+    rewrite produced_app, P1, (IH _ _ _ _ W1 D1 E2). reflexivity.
+Qed.
+
+Lemma compose_cut (cs cs1 hc1 : bool) (A1 A3 : list rep) :
+  (cs = true -> cs1 = true) -> (hc1 = true -> cs1 = true) ->
+  (cs1 = true -> cs = true \/ hc1 = true \/ A3 = []) ->
+  (if cs then [] else A1) ++ (if cs1 then [] else A3) = if cs then [] else A1 ++ (if hc1 then [] else A3).
+Proof.
+  intros H1 H2 H3. destruct cs.
+  - rewrite (H1 eq_refl). reflexivity.
+  - destruct hc1.
+    + rewrite (H2 eq_refl). reflexivity.
+    + destruct cs1; [|reflexivity]. destruct (H3 eq_refl) as [X|[X|X]]; try discriminate. rewrite X. reflexivity.
+Qed.
+
 Lemma exec_fifo c n ls : forall s s2 o w,
   WF s -> sys_exec c s ls = (s2, o, w) ->
   WF s2 /\
-  forwarded n o ++ in_evq n (y_evq s2) ++ in_up n s2 = in_evq n (y_evq s) ++ in_up n s ++ produced n w.
+  forwarded n o ++ in_evq n (y_evq s2) ++ in_up_heard n s2 =
+  in_evq n (y_evq s) ++ in_up_heard n s ++ (if cut_state n s then [] else audible n w).
 Proof.
   induction ls as [|l ls IH]; intros s s2 o w W H; cbn [sys_exec] in H.
-  - inversion H; subst. split; [exact W|]. cbn. rewrite app_nil_r. reflexivity.
+  - inversion H; subst. split; [exact W|]. cbn. destruct (cut_state n s2); rewrite app_nil_r; reflexivity.
   - destruct (sys_step c s l) as [[[s1 o1] w1]|] eqn:E1; [|apply (IH _ _ _ _ W H)].
     destruct (sys_exec c s1 ls) as [[s3 o3] w3] eqn:E2. inversion H; subst. clear H.
-    destruct (step_fifo _ _ _ _ _ _ n W E1) as (W1 & S1).
+    destruct (step_node _ _ _ _ _ _ n W E1) as (W1 & NS).
+    pose proof (ns_equation _ _ _ _ _ _ NS) as S1.
+    destruct (ns_cut _ _ _ _ _ _ NS) as (F1 & F2 & F3 & _).
     destruct (IH _ _ _ _ W1 E2) as (W2 & S2). split; [exact W2|].
-    rewrite forwarded_app, produced_app, <- app_assoc, S2.
-    rewrite !app_assoc. f_equal. rewrite <- !app_assoc. exact S1.
+    rewrite forwarded_app, audible_app, <- (compose_cut _ (cut_state n s1)); auto.
+    + rewrite <- app_assoc, S2. rewrite !app_assoc. f_equal. rewrite <- !app_assoc. exact S1.
+    + intros C. destruct (F3 C) as [X|[X|X]]; auto. right. right.
+      exact (proj1 (proj2 (nev_facts _ _ (exec_dead _ _ _ _ _ _ _ W1 X E2)))).
+Qed.
+
+(* a worker that sends no garbled report: everything it produces is audible, and nothing of it
+   sits on its wire behind a cut *)
+Lemma exec_full c n ls : forall s s2 o w,
+  WF s -> SI n s -> sys_exec c s ls = (s2, o, w) -> garbled n w = false ->
+  SI n s2 /\ produced n w = (if cut_state n s then [] else audible n w).
+Proof.
+  induction ls as [|l ls IH]; intros s s2 o w W I0 H G; cbn [sys_exec] in H.
+  - inversion H; subst. split; [exact I0|]. destruct (cut_state n s2); reflexivity.
+  - destruct (sys_step c s l) as [[[s1 o1] w1]|] eqn:E1; [|apply (IH _ _ _ _ W I0 H G)].
+    destruct (sys_exec c s1 ls) as [[s3 o3] w3] eqn:E2. inversion H; subst. clear H.
+    rewrite garbled_app in G. apply orb_false_iff in G. destruct G as (G1 & G3).
+    destruct (step_node _ _ _ _ _ _ n W E1) as (W1 & NS).
+    destruct (ns_cut _ _ _ _ _ _ NS) as (F1 & F2 & F3 & _).
+    destruct (ns_si _ _ _ _ _ _ NS G1 I0) as (I1 & P1).
+    destruct (IH _ _ _ _ W1 I1 E2 G3) as (I2 & P3). split; [exact I2|].
+    rewrite produced_app, audible_app, P1, P3. apply compose_cut; auto.
+    intros C. destruct (F3 C) as [X|[X|X]]; auto. right. right.
+    exact (proj1 (proj2 (nev_facts _ _ (exec_dead _ _ _ _ _ _ _ W1 X E2)))).
+Qed.
+
+(* ---- workerfinished is the last thing a worker sends: cutting there loses nothing ---- *)
+Definition FI (n : nat) (s : sys) : Prop := forall w0, wk n s = Some w0 -> nofin_script w0.
+
+Lemma ns_fin c n s s' o w :
+  node_step c n s s' o w -> FI n s ->
+  FI n s' /\ audible n w = decod n w /\ (has_cut n w = true -> garbled n w = false -> silent n s').
+Proof.
+  intros [Hw Hd Hdd Hn He Hk|w0 w1 evs Hdd Hk Hk' Hs -> Hw Hd Hdd' -> He|Hdd Hdd' Hw Hd Hk -> -> He
+         |m rest Hw Hw' Hd Hk Hdd -> Ho He] S1.
+  - destruct (nev_facts _ _ Hn) as (_ & B & B' & C & _). rewrite B, B', C. split; [|split; [reflexivity|discriminate]].
+    intros w0 E. destruct Hk as [Hk|[(_ & Hk & _)|(w0' & cmd & Hk1 & Hk2)]].
+    + apply S1. congruence.
+    + rewrite Hk in E. inversion E; subst. exact I.
+    + rewrite Hk2 in E. inversion E; subst. apply (nofin_ph _ w0'); [reflexivity|]. apply S1. exact Hk1.
+  - destruct (wstep_facts c n w0 w1 evs Hs (S1 _ Hk)) as (NF1 & _ & SM). split; [|split].
+    + intros w0' E. rewrite Hk' in E. inversion E; subst. exact NF1.
+    + destruct SM as [->|(e & -> & _)]; [reflexivity|]. cbn [map audible decod]. rewrite Nat.eqb_refl. unfold cut_ev.
+      destruct e; try reflexivity. destruct oc; reflexivity.
+    + intros HC G. right. exists w1. split; [exact Hk'|].
+      destruct SM as [->|(e & -> & FN)]; [discriminate|]. apply FN.
+      unfold has_cut in HC. cbn [map existsb fst snd] in HC. rewrite Nat.eqb_refl, orb_false_r in HC. cbn [andb] in HC.
+      unfold garbled in G. cbn [map existsb fst snd] in G. rewrite Nat.eqb_refl, orb_false_r in G. cbn [andb] in G.
+      unfold cut_ev in HC. rewrite G in HC. exact HC.
+  - split; [|split; [reflexivity|discriminate]]. intros w0 E. apply S1. congruence.
+  - split; [|split; [reflexivity|discriminate]]. intros w0 E. apply S1. congruence.
+Qed.
+
+Lemma garbled_has_cut n w : garbled n w = true -> has_cut n w = true.
+Proof.
+  unfold garbled, has_cut. induction w as [|[m e] w IH]; [discriminate|]. cbn [existsb fst snd].
+  destruct (Nat.eqb m n); cbn [andb orb]; [|exact IH].
+  change (cut_ev e) with (is_garbled e || is_fin e).
+  destruct (is_garbled e); cbn [orb]; [reflexivity|]. intros H. rewrite (IH H). apply orb_true_r.
+Qed.
+
+Lemma exec_fin c n ls : forall s s2 o w,
+  WF s -> FI n s -> sys_exec c s ls = (s2, o, w) -> audible n w = decod n w.
+Proof.
+  induction ls as [|l ls IH]; intros s s2 o w W I0 H; cbn [sys_exec] in H.
+  - inversion H; subst. reflexivity.
+  - destruct (sys_step c s l) as [[[s1 o1] w1]|] eqn:E1; [|apply (IH _ _ _ _ W I0 H)].
+    destruct (sys_exec c s1 ls) as [[s3 o3] w3] eqn:E2. inversion H; subst. clear H.
+    destruct (step_node _ _ _ _ _ _ n W E1) as (W1 & NS).
+    destruct (ns_fin _ _ _ _ _ _ NS I0) as (I1 & A1 & SL).
+    rewrite audible_app, decod_app, A1, (IH _ _ _ _ W1 I1 E2). f_equal.
+    destruct (garbled n w1) eqn:G1; [rewrite (garbled_has_cut _ _ G1); reflexivity|].
+    destruct (has_cut n w1) eqn:C1; [|reflexivity].
+    pose proof (exec_silent _ _ _ _ _ _ _ W1 (SL eq_refl eq_refl) E2) as P3.
+    rewrite decod_decodable, P3. reflexivity.
 Qed.
 
 (* ====================================================================================== *)
 (* C04: the main theorem and its corollaries                                               *)
 (* ====================================================================================== *)
+
+(* what worker n produced before its first cut event (a garbled report, or workerfinished) =
+   what the hook has seen tagged n ++ what waits in the controller's queue ++ what waits on
+   n's wire and will still be heard; in every reachable state, written-off workers included *)
 Theorem fifo_invariant : forall c ls n s o w,
   sys_exec c (sys_init c) ls = (s, o, w) ->
-  produced n w = forwarded n o ++ in_evq n (y_evq s) ++ in_up n s.
+  audible n w = forwarded n o ++ in_evq n (y_evq s) ++ in_up_heard n s.
 Proof.
   intros c ls n s o w H.
   destruct (exec_fifo c n ls _ _ _ _ (WF_init c) H) as (_ & E).
-  destruct (init_nothing_in_flight c n) as (E1 & E2). rewrite E1, E2 in E. cbn [app] in E. symmetry. exact E.
+  destruct (init_nothing_in_flight c n) as (E1 & _ & E2 & E3). rewrite E1, E2, E3 in E. cbn [app] in E.
+  symmetry. exact E.
 Qed.
 Print Assumptions fifo_invariant.
+
+(* workerfinished is the last event of a worker, so the audible reports are exactly the reports
+   produced before the first garbled one *)
+Theorem fifo_audible_decodable : forall c ls n s o w,
+  sys_exec c (sys_init c) ls = (s, o, w) -> audible n w = decodable (produced n w).
+Proof.
+  intros c ls n s o w H. rewrite <- decod_decodable.
+  apply (exec_fin c n ls _ _ _ _ (WF_init c) (proj1 (SI_init c n)) H).
+Qed.
+Print Assumptions fifo_audible_decodable.
+
+Theorem fifo_invariant_decodable : forall c ls n s o w,
+  sys_exec c (sys_init c) ls = (s, o, w) ->
+  decodable (produced n w) = forwarded n o ++ in_evq n (y_evq s) ++ in_up_heard n s.
+Proof.
+  intros c ls n s o w H. rewrite <- (fifo_audible_decodable _ _ _ _ _ _ H). exact (fifo_invariant _ _ _ _ _ _ H).
+Qed.
+Print Assumptions fifo_invariant_decodable.
+
+(* a worker that has sent no garbled report so far: everything it produced is accounted for *)
+Theorem fifo_invariant_not_written_off : forall c ls n s o w,
+  sys_exec c (sys_init c) ls = (s, o, w) ->
+  (forall i k, ~ In (i, k, Garbled) (produced n w)) ->
+  produced n w = forwarded n o ++ in_evq n (y_evq s) ++ in_up n s.
+Proof.
+  intros c ls n s o w H G. apply garbled_produced in G.
+  destruct (exec_full c n ls _ _ _ _ (WF_init c) (SI_init c n) H G) as ((_ & _ & S4) & P).
+  destruct (init_nothing_in_flight c n) as (_ & _ & _ & E3). rewrite E3 in P.
+  rewrite P, S4. exact (fifo_invariant _ _ _ _ _ _ H).
+Qed.
+Print Assumptions fifo_invariant_not_written_off.
 
 (* the well-formedness invariant holds along every schedule *)
 Theorem fifo_wf : forall c ls s o w, sys_exec c (sys_init c) ls = (s, o, w) -> WF s.
@@ -1098,11 +1919,15 @@ Qed.
 Print Assumptions fifo_wf.
 
 (* what the hook has seen is a prefix of what the worker produced: nothing is invented,
-   duplicated or reordered *)
+   duplicated or reordered -- also for a worker that was written off *)
 Corollary fifo_prefix : forall c ls n s o w,
   sys_exec c (sys_init c) ls = (s, o, w) ->
   exists rest, produced n w = forwarded n o ++ rest.
-Proof. intros c ls n s o w H. eexists. apply (fifo_invariant _ _ _ _ _ _ H). Qed.
+Proof.
+  intros c ls n s o w H. destruct (decodable_prefix (produced n w)) as (rest & E).
+  rewrite (fifo_invariant_decodable _ _ _ _ _ _ H) in E.
+  eexists. rewrite E at 1. rewrite <- !app_assoc. reflexivity.
+Qed.
 Print Assumptions fifo_prefix.
 
 (* the j-th report forwarded for worker n is the j-th report worker n produced *)
@@ -1110,7 +1935,7 @@ Corollary fifo_nth : forall c ls n s o w j r,
   sys_exec c (sys_init c) ls = (s, o, w) ->
   nth_error (forwarded n o) j = Some r -> nth_error (produced n w) j = Some r.
 Proof.
-  intros c ls n s o w j r H Hj. rewrite (fifo_invariant _ _ _ _ _ _ H).
+  intros c ls n s o w j r H Hj. destruct (fifo_prefix _ _ n _ _ _ H) as (rest & ->).
   rewrite nth_error_app1; [exact Hj|]. apply nth_error_Some. rewrite Hj. discriminate.
 Qed.
 Print Assumptions fifo_nth.
@@ -1118,19 +1943,46 @@ Print Assumptions fifo_nth.
 Corollary fifo_no_more_than_produced : forall c ls n s o w,
   sys_exec c (sys_init c) ls = (s, o, w) -> length (forwarded n o) <= length (produced n w).
 Proof.
-  intros c ls n s o w H. rewrite (fifo_invariant _ _ _ _ _ _ H), app_length. lia.
+  intros c ls n s o w H. destruct (fifo_prefix _ _ n _ _ _ H) as (rest & ->). rewrite app_length. lia.
 Qed.
 Print Assumptions fifo_no_more_than_produced.
 
-(* nothing of worker n in flight: the hook has seen exactly what the worker produced *)
+(* no garbled report is ever forwarded *)
+Corollary fifo_no_garbled_forwarded : forall c ls n s o w,
+  sys_exec c (sys_init c) ls = (s, o, w) -> forall i k, ~ In (i, k, Garbled) (forwarded n o).
+Proof.
+  intros c ls n s o w H i k Hin.
+  assert (D : forall l, ~ In (i, k, Garbled) (decodable l)).
+  { induction l as [|[[i' k'] oc] l IH]; [intros []|]. destruct oc; cbn [decodable]; try (intros [E|X]; [discriminate|exact (IH X)]). intros []. }
+  apply (D (produced n w)). rewrite (fifo_invariant_decodable _ _ _ _ _ _ H). apply in_or_app. left. exact Hin.
+Qed.
+Print Assumptions fifo_no_garbled_forwarded.
+
+(* nothing of worker n in flight and no garbled report sent by it: the hook has seen exactly what
+   the worker produced *)
 Corollary fifo_complete : forall c ls n s o w,
   sys_exec c (sys_init c) ls = (s, o, w) ->
+  (forall i k, ~ In (i, k, Garbled) (produced n w)) ->
   in_evq n (y_evq s) = [] -> in_up n s = [] ->
   forwarded n o = produced n w.
 Proof.
-  intros c ls n s o w H E1 E2. rewrite (fifo_invariant _ _ _ _ _ _ H), E1, E2, app_nil_r. reflexivity.
+  intros c ls n s o w H G E1 E2. rewrite (fifo_invariant_not_written_off _ _ _ _ _ _ H G), E1, E2, app_nil_r. reflexivity.
 Qed.
 Print Assumptions fifo_complete.
+
+(* in general: nothing in the queue and nothing left to hear -- in particular once the worker is
+   down -- the hook has seen exactly the reports produced before the first garbled one *)
+Corollary fifo_complete_decodable : forall c ls n s o w,
+  sys_exec c (sys_init c) ls = (s, o, w) ->
+  in_evq n (y_evq s) = [] -> in_up_heard n s = [] ->
+  forwarded n o = decodable (produced n w).
+Proof.
+  intros c ls n s o w H E1 E2. rewrite (fifo_invariant_decodable _ _ _ _ _ _ H), E1, E2, app_nil_r. reflexivity.
+Qed.
+Print Assumptions fifo_complete_decodable.
+
+Corollary fifo_down_nothing_heard : forall n s, sdn n s = true -> in_up_heard n s = [].
+Proof. intros n s H. unfold in_up_heard. rewrite H. reflexivity. Qed.
 
 (* extending the schedule only extends what was forwarded and what was produced *)
 Lemma sys_exec_app c ls1 : forall ls2 s,
@@ -1173,6 +2025,8 @@ Fixpoint rounds (k : nat) (round : list label) : list label :=
   match k with 0 => [] | S k => round ++ rounds k round end.
 
 Definition round1 : list label := [LMain 0; LRecvW 0; LDeliver 0; LRecv 0; LCtl].
+Definition round2 : list label :=
+  [LMain 0; LMain 1; LRecvW 0; LRecvW 1; LDeliver 0; LDeliver 1; LRecv 0; LRecv 1; LCtl].
 Definition round3 : list label :=
   [LMain 0; LMain 1; LMain 2; LRecvW 0; LRecvW 1; LRecvW 2; LDeliver 0; LDeliver 1; LDeliver 2;
    LRecv 0; LRecv 1; LRecv 2; LCtl].
@@ -1210,6 +2064,71 @@ Example ex_replacement :
   (let '(s, o, _) := sys_exec c (sys_init c) ls in (count is_spawn o, d_next_gw (y_d s))) = (1, 3).
 Proof. vm_compute. repeat split; reflexivity. Qed.
 
+(* ---- an undecodable report: the worker is written off ---- *)
+(* worker 0 sends a garbled second report for test 0; the other workers behave *)
+Definition gb_oracle : oracle :=
+  {| reports_of := fun i => match i with 0 => [Passed; Garbled; Failed] | _ => [Skipped] end;
+     stops_after := fun _ => false; ncollected := 2; coll_reports := [] |}.
+Definition gb_cfg (requeue : nat) : config :=
+  {| c_mode := MLoad; c_numnodes := 1; c_chunk := None; c_maxfail := 0%Z; c_max_restart := Some 4%Z;
+     c_requeue := requeue; c_coll := fun _ => ["a"; "b"]%string;
+     c_oracle := fun n => match n with 0 => gb_oracle | _ => ex_oracle end;
+     c_dur := fun _ => 0%Z; c_crash_in := fun _ _ => false; c_strict := false; c_spec := fun _ => 0 |}.
+
+(* forwarded, produced, produced before the first garbled report, in the controller's queue,
+   on the wire, on the wire and still to be heard, down flag, session result *)
+Definition view2 (c : config) (ls : list label) (n : nat) :=
+  let '(s, o, w) := sys_exec c (sys_init c) ls in
+  (forwarded n o, produced n w, decodable (produced n w), in_evq n (y_evq s), in_up n s, in_up_heard n s,
+   sdn n s, y_result s).
+
+Definition c04_marks (o : list out) : list out :=
+  filter (fun x => match x with
+                   | OHook (HReport _ _ _ _) | OHook (HCrashReport _ _) | OHook (HSpawn _ _)
+                   | OHook (HNodeDown _ _) => true
+                   | _ => false end) o.
+
+(* the worker ran ahead; the undecodable message is still on the wire: the report behind it is on
+   the wire (in_up) but will not be heard (in_up_heard) *)
+Example ex_garbled_in_flight :
+  view2 (gb_cfg 0) (rounds 7 round1 ++ rounds 8 [LMain 0; LRecvW 0]) 0 =
+  ([], [(0, 0, Passed); (0, 1, Garbled); (0, 2, Failed)], [(0, 0, Passed)],
+   [], [(0, 0, Passed); (0, 2, Failed)], [(0, 0, Passed)], false, None).
+Proof. vm_compute. reflexivity. Qed.
+
+(* the session run to its end: worker 0 is written off at its garbled report (crash report for
+   test "a", replacement worker 1 spawned); the living worker 0 goes on and even runs test 1, but
+   none of its later reports is forwarded; what was forwarded for it is the prefix before the
+   garbled report. The replacement runs test 1 and its report arrives tagged 1. *)
+Example ex_garbled_written_off :
+  let c := gb_cfg 0 in
+  let ls := rounds 60 round2 in
+  view2 c ls 0 =
+    ([(0, 0, Passed)], [(0, 0, Passed); (0, 1, Garbled); (0, 2, Failed); (1, 0, Skipped)], [(0, 0, Passed)],
+     [], [], [], true, Some RFinished) /\
+  view2 c ls 1 = ([(1, 0, Skipped)], [(1, 0, Skipped)], [(1, 0, Skipped)], [], [], [], true, Some RFinished) /\
+  (let '(_, o, _) := sys_exec c (sys_init c) ls in c04_marks o) =
+    [OHook (HReport 0 0 0 Passed); OHook (HNodeDown 0 true); OHook (HCrashReport "a" 0); OHook (HSpawn 1 0);
+     OHook (HReport 1 1 0 Skipped); OHook (HNodeDown 1 false)].
+Proof. vm_compute. repeat split; reflexivity. Qed.
+
+(* the theorems apply to this run: the equation of fifo_invariant_decodable, instantiated *)
+Example ex_garbled_theorem :
+  let c := gb_cfg 0 in
+  let ls := rounds 7 round1 ++ rounds 8 [LMain 0; LRecvW 0] ++ [LRecv 0; LRecv 0] in
+  let '(s, o, w) := sys_exec c (sys_init c) ls in
+  decodable (produced 0 w) = forwarded 0 o ++ in_evq 0 (y_evq s) ++ in_up_heard 0 s /\
+  in_evq 0 (y_evq s) = [(0, 0, Passed)] /\ in_up 0 s = [(0, 2, Failed)] /\ in_up_heard 0 s = [].
+Proof.
+  cbv zeta.
+  destruct (sys_exec (gb_cfg 0) (sys_init (gb_cfg 0))
+             (rounds 7 round1 ++ rounds 8 [LMain 0; LRecvW 0] ++ [LRecv 0; LRecv 0])) as [[s o] w] eqn:E.
+  split; [exact (fifo_invariant_decodable _ _ 0 _ _ _ E)|].
+  vm_compute in E. inversion E; subst. vm_compute. repeat split; reflexivity.
+Qed.
+
 Print Assumptions s_step_keys.
 Print Assumptions step_fifo.
 Print Assumptions exec_fifo.
+Print Assumptions exec_full.
+Print Assumptions ex_garbled_theorem.
